@@ -144,6 +144,22 @@ theorem nouaf_snoc (t : List Ev) (e : Ev) (h : ByteStr.NoUseAfterFree t)
       · simp at hc; exact he id (Or.inr (Or.inr hc.symm)) hmem
 
 
+theorem onlyalloc_snoc (t : List Ev) (e : Ev) (h : ByteStr.OnlyAllocated t)
+    (he : ∀ id, (e = .free id ∨ e = .read id ∨ e = .write id) → ∃ sz, Ev.malloc id sz ∈ t) :
+    ByteStr.OnlyAllocated (t ++ [e]) := by
+  intro t1 t2 e' id heq hk
+  rcases List.eq_nil_or_concat t2 with h2 | ⟨t2', e'', h2⟩
+  · subst h2
+    obtain ⟨ht, he'⟩ := List.append_inj' heq rfl
+    have he'' : e = e' := by simpa using he'
+    subst he''; subst ht
+    exact he id hk
+  · rw [List.concat_eq_append] at h2
+    subst h2
+    have heq' : t ++ [e] = (t1 ++ e' :: t2') ++ [e''] := by simp [heq]
+    obtain ⟨ht, _⟩ := List.append_inj' heq' rfl
+    exact h t1 t2' e' id ht hk
+
 /-! ### memory invariant -/
 def liveAt (heap : List Block) (id : Nat) : Option Bool := (heap[id]?).map (·.live)
 
@@ -156,13 +172,15 @@ structure MemInv (m : Mem) : Prop where
   frees : ∀ id, m.trace.count (Ev.free id) = freesFor (liveAt m.heap id)
   mallocs : ∀ id, (m.trace.filter (Ev.isMallocOf id)).length = if id < m.heap.length then 1 else 0
   nouaf : ByteStr.NoUseAfterFree m.trace
+  alloc : ByteStr.OnlyAllocated m.trace
 
 theorem MemInv.empty : MemInv {} := by
-  refine ⟨?_, ?_, ?_, ?_⟩
+  refine ⟨?_, ?_, ?_, ?_, ?_⟩
   · intro id b h; simp at h
   · intro id; simp [liveAt, freesFor]
   · intro id; simp
   · intro t1 t2 id h; simp at h
+  · intro t1 t2 e id h; simp at h
 
 theorem liveAt_some {heap : List Block} {id : Nat} {b : Block} (h : heap[id]? = some b) :
     liveAt heap id = some b.live := by simp [liveAt, h]
@@ -174,13 +192,41 @@ theorem free_notin_of_live {m : Mem} (h : MemInv m) {id : Nat} {b : Block} (hb :
   simp only [freesFor] at this
   exact List.count_eq_zero.mp this
 
+theorem lt_of_getElem?_some' {α : Type} {l : List α} {i : Nat} {a : α} (h : l[i]? = some a) : i < l.length := by
+  rcases Nat.lt_or_ge i l.length with hlt | hge
+  · exact hlt
+  · rw [List.getElem?_eq_none hge] at h; simp at h
+
+theorem malloc_mem_of_lt {m : Mem} (h : MemInv m) {id : Nat} (hid : id < m.heap.length) :
+    ∃ sz, Ev.malloc id sz ∈ m.trace := by
+  have := h.mallocs id
+  rw [if_pos hid] at this
+  have hne : m.trace.filter (Ev.isMallocOf id) ≠ [] := by
+    intro hc; rw [hc] at this; simp at this
+  obtain ⟨e, he⟩ := List.exists_mem_of_ne_nil _ hne
+  rw [List.mem_filter] at he
+  obtain ⟨hmem, hp⟩ := he
+  cases e with
+  | malloc i sz =>
+    simp [Ev.isMallocOf] at hp; subst hp; exact ⟨sz, hmem⟩
+  | mallocFail _ => simp [Ev.isMallocOf] at hp
+  | free _ => simp [Ev.isMallocOf] at hp
+  | read _ => simp [Ev.isMallocOf] at hp
+  | write _ => simp [Ev.isMallocOf] at hp
+
 /-- appending a read/write of a live block; the heap may change but keeps lengths, liveness, sizes -/
 theorem MemInv.access {m : Mem} (h : MemInv m) (e : Ev) (id : Nat) (b : Block) (heap' : List Block)
     (he : e = .read id ∨ e = .write id) (hb : m.heap[id]? = some b) (hl : b.live = true)
     (hlen : heap'.length = m.heap.length) (hlive : ∀ i, liveAt heap' i = liveAt m.heap i)
     (hcells : ∀ (i : Nat) (b' : Block), heap'[i]? = some b' → b'.cells.length = b'.size) :
     MemInv { heap := heap', trace := m.trace ++ [e] } := by
-  refine ⟨hcells, ?_, ?_, ?_⟩
+  refine ⟨hcells, ?_, ?_, ?_, ?_⟩
+  rotate_left 3
+  · dsimp only
+    apply onlyalloc_snoc _ _ h.alloc
+    intro j hj
+    have hmal := malloc_mem_of_lt h (lt_of_getElem?_some' hb)
+    rcases he with he | he <;> subst he <;> rcases hj with hj | hj | hj <;> simp at hj <;> subst hj <;> exact hmal
   · intro i
     dsimp only
     rw [hlive i, ← h.frees i, List.count_append]
@@ -199,7 +245,12 @@ theorem malloc_ok (m : Mem) (sz : Nat) (h : MemInv m) :
     ∃ m', m.malloc sz true = (m', some m.heap.length) ∧
       m'.heap = m.heap ++ [{ size := sz, cells := List.replicate sz none, live := true }] ∧ MemInv m' := by
   refine ⟨{ heap := m.heap ++ [{ size := sz, cells := List.replicate sz none, live := true }],
-            trace := m.trace ++ [.malloc m.heap.length sz] }, by simp [Mem.malloc], rfl, ?_, ?_, ?_, ?_⟩
+            trace := m.trace ++ [.malloc m.heap.length sz] }, by simp [Mem.malloc], rfl, ?_, ?_, ?_, ?_, ?_⟩
+  rotate_left 4
+  · dsimp only
+    apply onlyalloc_snoc _ _ h.alloc
+    intro j hj
+    rcases hj with hj | hj | hj <;> simp at hj
   · intro id b hb
     dsimp only at hb
     rcases Nat.lt_or_ge id m.heap.length with hlt | hge
@@ -234,7 +285,12 @@ theorem malloc_ok (m : Mem) (sz : Nat) (h : MemInv m) :
 
 theorem malloc_fail (m : Mem) (sz : Nat) (h : MemInv m) :
     ∃ m', m.malloc sz false = (m', none) ∧ m'.heap = m.heap ∧ MemInv m' := by
-  refine ⟨{ m with trace := m.trace ++ [.mallocFail sz] }, by simp [Mem.malloc], rfl, h.cells, ?_, ?_, ?_⟩
+  refine ⟨{ m with trace := m.trace ++ [.mallocFail sz] }, by simp [Mem.malloc], rfl, h.cells, ?_, ?_, ?_, ?_⟩
+  rotate_left 3
+  · dsimp only
+    apply onlyalloc_snoc _ _ h.alloc
+    intro j hj
+    rcases hj with hj | hj | hj <;> simp at hj
   · intro id; dsimp only; rw [List.count_append, h.frees id]; simp
   · intro id; dsimp only; rw [List.filter_append, List.length_append, h.mallocs id]; simp [Ev.isMallocOf]
   · dsimp only
@@ -257,7 +313,14 @@ theorem free_ok (m : Mem) (id : Nat) (b : Block) (site : String) (h : MemInv m)
     · exact hlt
     · rw [List.getElem?_eq_none hge] at hb; simp at hb
   refine ⟨{ heap := m.heap.set id { b with live := false }, trace := m.trace ++ [.free id] },
-    by simp [Mem.free, hb, hl], rfl, ?_, ?_, ?_, ?_⟩
+    by simp [Mem.free, hb, hl], rfl, ?_, ?_, ?_, ?_, ?_⟩
+  rotate_left 4
+  · dsimp only
+    apply onlyalloc_snoc _ _ h.alloc
+    intro j hj
+    have hmal := malloc_mem_of_lt h hid
+    rcases hj with hj | hj | hj <;> simp at hj
+    subst hj; exact hmal
   · intro i b' hb'
     dsimp only at hb'
     by_cases hi : i = id
@@ -326,5 +389,1390 @@ theorem strlen_ok (m : Mem) (id o : Nat) (b : Block) (site : String) (s : Bytes)
     simp only [hb, hl]
     rw [if_neg (by simp), if_neg (by omega), hs, scanNul_holds]
   · exact MemInv.access h (.read id) id b _ (Or.inl rfl) hb hl rfl (fun _ => rfl) h.cells
+
+/-! ### representation -/
+
+/-- block `b` holds `s` followed by a NUL from offset `o` -/
+def Holds (b : Block) (o : Nat) (s : Bytes) : Prop :=
+  o + s.length + 1 ≤ b.size ∧ ∀ i, i < s.length + 1 → b.cells[o + i]? = ((s ++ [0])[i]?).map some
+
+/-- node `n` represents the value `s` in `heap` -/
+def Rep (heap : List Block) (n : Node) (s : Bytes) : Prop :=
+  ∃ b, heap[n.blk]? = some b ∧ b.live = true ∧ off + ptrSize + 1 ≤ b.size ∧ (s.length : Int) ≤ SSIZE_MAX ∧
+    ((n.len = (s.length : Int) ∧ Holds b off s) ∨
+     (n.len = -(s.length : Int) ∧ 1 ≤ s.length ∧
+        ∃ p bp, n.pdata = some p ∧ p ≠ n.blk ∧ heap[p]? = some bp ∧ bp.live = true ∧ Holds bp 0 s))
+
+/-- the blocks a node is responsible for -/
+def owns (n : Node) (id : Nat) : Prop := id = n.blk ∨ (n.len < 0 ∧ n.pdata = some id)
+
+theorem lt_of_getElem?_some {α : Type} {l : List α} {i : Nat} {a : α} (h : l[i]? = some a) : i < l.length := by
+  rcases Nat.lt_or_ge i l.length with hlt | hge
+  · exact hlt
+  · rw [List.getElem?_eq_none hge] at h; simp at h
+
+theorem Holds.slice {b : Block} {o : Nat} {s : Bytes} (h : Holds b o s) (hc : b.cells.length = b.size)
+    (k : Nat) (hk : k ≤ s.length + 1) :
+    (b.cells.drop o).take k = ((s ++ [0]).take k).map some := by
+  have hlen : (((s ++ [0]).take k).map some).length = k := by simp; omega
+  have := slice_eq_of_pointwise b.cells o (((s ++ [0]).take k).map some) (by
+    intro i hi
+    rw [hlen] at hi
+    rw [h.2 i (by omega), List.getElem?_map, List.getElem?_take, if_pos hi]) (by rw [hlen]; have := h.1; omega)
+  rw [hlen] at this
+  exact this
+
+theorem Holds.slice_bytes {b : Block} {o : Nat} {s : Bytes} (h : Holds b o s) (hc : b.cells.length = b.size)
+    (k : Nat) (hk : k ≤ s.length) :
+    (b.cells.drop o).take k = (s.take k).map some := by
+  rw [h.slice hc k (by omega), List.take_append_of_le_length hk]
+
+theorem Holds.cell {b : Block} {o : Nat} {s : Bytes} (h : Holds b o s) (hc : b.cells.length = b.size)
+    (k : Nat) (hk : k ≤ s.length) :
+    ∃ t, (s ++ [0])[k]? = some t ∧ (b.cells.drop (o + k)).take 1 = [t].map some := by
+  have hk' : k < (s ++ [0]).length := by simp; omega
+  refine ⟨(s ++ [0])[k], List.getElem?_eq_getElem hk', ?_⟩
+  have := slice_eq_of_pointwise b.cells (o + k) [some (s ++ [0])[k]] (by
+    intro i hi
+    simp at hi; subst hi
+    rw [Nat.add_zero, h.2 k (by omega), List.getElem?_eq_getElem hk']; simp) (by simp; have := h.1; omega)
+  simpa using this
+
+theorem Holds.drop_eq {b : Block} {o : Nat} {s : Bytes} (h : Holds b o s) (hc : b.cells.length = b.size) :
+    ∃ rest, b.cells.drop o = (s ++ [0]).map some ++ rest := by
+  refine ⟨(b.cells.drop o).drop (s.length + 1), ?_⟩
+  have := h.slice hc (s.length + 1) (Nat.le_refl _)
+  have e : (s ++ [0]).take (s.length + 1) = s ++ [0] := List.take_of_length_le (by simp)
+  rw [e] at this
+  rw [← this, List.take_append_drop]
+
+/-- memcpy of the bytes followed by the NUL store establish `Holds` -/
+theorem holds_after_writes (cells : List (Option UInt8)) (size o : Nat) (live : Bool) (bs : Bytes)
+    (hc : cells.length = size) (hbd : o + bs.length + 1 ≤ size) :
+    Holds { size := size, cells := writeAt (writeAt cells o (bs.map some)) (o + bs.length) [some 0], live := live } o bs := by
+  refine ⟨hbd, ?_⟩
+  intro i hi
+  dsimp only
+  have h1 : (writeAt cells o (bs.map some)).length = cells.length := writeAt_length _ _ _ (by simp; omega)
+  by_cases hlt : i < bs.length
+  · rw [writeAt_get_lt _ _ _ _ (by simp; omega) (by omega)]
+    rw [writeAt_get_mid _ _ _ _ (by simp; omega) (by omega) (by simp; omega)]
+    rw [List.getElem?_append_left hlt]
+    simp
+  · have : i = bs.length := by omega
+    subst this
+    rw [writeAt_get_mid _ _ _ _ (by simp; omega) (by omega) (by simp)]
+    simp
+
+theorem Rep.frame {heap heap' : List Block} {n : Node} {s : Bytes} (h : Rep heap n s)
+    (hf : ∀ id, owns n id → heap'[id]? = heap[id]?) : Rep heap' n s := by
+  obtain ⟨b, hb, hl, hsz, hss, hcase⟩ := h
+  refine ⟨b, by rw [hf _ (Or.inl rfl)]; exact hb, hl, hsz, hss, ?_⟩
+  rcases hcase with hi | ⟨hlen, h1, p, bp, hp, hne, hbp, hlp, hh⟩
+  · exact Or.inl hi
+  · refine Or.inr ⟨hlen, h1, p, bp, hp, hne, ?_, hlp, hh⟩
+    rw [hf p (Or.inr ⟨by omega, hp⟩)]; exact hbp
+
+theorem Rep.owned_lt {heap : List Block} {n : Node} {s : Bytes} (h : Rep heap n s) {id : Nat}
+    (ho : owns n id) : id < heap.length := by
+  obtain ⟨b, hb, _, _, _, hcase⟩ := h
+  rcases ho with ho | ⟨hneg, hp⟩
+  · subst ho; exact lt_of_getElem?_some hb
+  · rcases hcase with ⟨hlen, _⟩ | ⟨_, _, p, bp, hp', _, hbp, _, _⟩
+    · omega
+    · rw [hp] at hp'; injection hp' with hp'; subst hp'; exact lt_of_getElem?_some hbp
+
+theorem Rep.owned_live {heap : List Block} {n : Node} {s : Bytes} (h : Rep heap n s) {id : Nat} {b' : Block}
+    (ho : owns n id) (hb' : heap[id]? = some b') : b'.live = true := by
+  obtain ⟨b, hb, hl, _, _, hcase⟩ := h
+  rcases ho with ho | ⟨hneg, hp⟩
+  · subst ho; rw [hb] at hb'; injection hb' with hb'; subst hb'; exact hl
+  · rcases hcase with ⟨hlen, _⟩ | ⟨_, _, p, bp, hp', _, hbp, hlp, _⟩
+    · omega
+    · rw [hp] at hp'; injection hp' with hp'; subst hp'
+      rw [hbp] at hb'; injection hb' with hb'; subst hb'; exact hlp
+
+/-- effect of an operation on the heap: blocks outside `pre` are untouched, blocks inside `pre` or new
+are live exactly when `post` names them -/
+structure Frame (heap : List Block) (pre : Nat → Prop) (heap' : List Block) (post : Nat → Prop) : Prop where
+  len_le : heap.length ≤ heap'.length
+  untouched : ∀ id, id < heap.length → ¬ pre id → heap'[id]? = heap[id]?
+  live_iff : ∀ (id : Nat) (b' : Block), heap'[id]? = some b' → (heap.length ≤ id ∨ pre id) → (b'.live = true ↔ post id)
+  post_in : ∀ id, post id → heap.length ≤ id ∨ pre id
+
+theorem Frame.same {heap : List Block} {n : Node} {s : Bytes} (h : Rep heap n s) :
+    Frame heap (owns n) heap (owns n) := by
+  refine ⟨Nat.le_refl _, fun _ _ _ => rfl, ?_, fun id h => Or.inr h⟩
+  intro id b' hb' hor
+  rcases hor with hge | ho
+  · have := lt_of_getElem?_some hb'; omega
+  · exact ⟨fun _ => ho, fun _ => h.owned_live ho hb'⟩
+
+theorem Frame.trans {h0 h1 h2 : List Block} {P Q R : Nat → Prop} (f1 : Frame h0 P h1 Q) (f2 : Frame h1 Q h2 R) :
+    Frame h0 P h2 R := by
+  refine ⟨Nat.le_trans f1.len_le f2.len_le, ?_, ?_, ?_⟩
+  · intro id hid hnp
+    have hq : ¬ Q id := by
+      intro hq; rcases f1.post_in id hq with h | h
+      · omega
+      · exact hnp h
+    rw [f2.untouched id (by have := f1.len_le; omega) hq, f1.untouched id hid hnp]
+  · intro id b' hb' hor
+    by_cases hq : h1.length ≤ id ∨ Q id
+    · exact f2.live_iff id b' hb' hq
+    · have hlt : id < h1.length := by omega
+      have hnq : ¬ Q id := fun h => hq (Or.inr h)
+      have hb1 : h1[id]? = some b' := by rw [← f2.untouched id hlt hnq]; exact hb'
+      have := f1.live_iff id b' hb1 hor
+      rw [this]
+      constructor
+      · intro h; exact absurd h hnq
+      · intro hr; rcases f2.post_in id hr with h | h
+        · omega
+        · exact absurd h hnq
+  · intro id hr
+    rcases f2.post_in id hr with h | h
+    · by_cases hlt : id < h0.length
+      · right
+        -- id is an old block that the second step did not create: impossible since h1.length ≤ id
+        have := f1.len_le; omega
+      · left; omega
+    · exact f1.post_in id h
+
+/-- liveness of every block of the world, carried through a framed operation; `R` names blocks of
+other nodes, disjoint from the operated one -/
+theorem Frame.world {heap heap' : List Block} {P Q R : Nat → Prop} (f : Frame heap P heap' Q)
+    (hw : ∀ (id : Nat) (b : Block), heap[id]? = some b → (b.live = true ↔ (R id ∨ P id)))
+    (hR : ∀ id, R id → id < heap.length ∧ ¬ P id) :
+    ∀ (id : Nat) (b' : Block), heap'[id]? = some b' → (b'.live = true ↔ (R id ∨ Q id)) := by
+  intro id b' hb'
+  by_cases hor : heap.length ≤ id ∨ P id
+  · rw [f.live_iff id b' hb' hor]
+    constructor
+    · exact Or.inr
+    · intro h; rcases h with h | h
+      · have := hR id h; rcases hor with hor | hor
+        · omega
+        · exact absurd hor this.2
+      · exact h
+  · have hlt : id < heap.length := by omega
+    have hnp : ¬ P id := fun h => hor (Or.inr h)
+    have hb : heap[id]? = some b' := by rw [← f.untouched id hlt hnp]; exact hb'
+    rw [hw id b' hb]
+    constructor
+    · intro h; rcases h with h | h
+      · exact Or.inl h
+      · exact absurd h hnp
+    · intro h; rcases h with h | h
+      · exact Or.inl h
+      · rcases f.post_in id h with h' | h'
+        · omega
+        · exact absurd h' hnp
+
+/-! ### accessors -/
+theorem ckSsize_ok (x : Int) (site : String) (h1 : -SSIZE_MAX - 1 ≤ x) (h2 : x ≤ SSIZE_MAX) :
+    ckSsize x site = .ok x := by
+  unfold ckSsize; rw [if_pos ⟨h1, h2⟩]
+
+theorem ckSize_ok (x : Int) (site : String) (h1 : 0 ≤ x) (h2 : x ≤ SIZE_MAX) :
+    ckSize x site = .ok x.toNat := by
+  unfold ckSize; rw [if_pos ⟨h1, h2⟩]
+
+theorem liveNode_ok (m : Mem) (n : Node) (site : String) (b : Block) (hb : m.heap[n.blk]? = some b)
+    (hl : b.live = true) : liveNode m n site = .ok () := by
+  unfold liveNode; simp [hb, hl]
+
+theorem Rep.liveNode {m : Mem} {n : Node} {s : Bytes} (h : Rep m.heap n s) (site : String) :
+    liveNode m n site = .ok () := by
+  obtain ⟨b, hb, hl, _⟩ := h
+  exact liveNode_ok m n site b hb hl
+
+theorem ssize_pos : 0 ≤ SSIZE_MAX := by unfold SSIZE_MAX; omega
+
+theorem absLen_spec {m : Mem} {n : Node} {s : Bytes} (h : Rep m.heap n s) (site : String) :
+    absLen m n site = .ok (s.length : Int) := by
+  unfold absLen
+  rw [h.liveNode]
+  simp only [Outcome.bind_ok]
+  obtain ⟨b, hb, hl, hsz, hss, hcase⟩ := h
+  rcases hcase with ⟨hlen, _⟩ | ⟨hlen, h1, _⟩
+  · rw [if_neg (by omega), hlen]; rfl
+  · rw [if_pos (by omega), hlen, ckSsize_ok _ _ (by omega) (by omega)]; simp
+
+theorem stringComponent_spec {m : Mem} {n : Node} {s : Bytes} (h : Rep m.heap n s) (site : String) :
+    ∃ id o b, stringComponent m n site = .ok (id, o) ∧ m.heap[id]? = some b ∧ b.live = true ∧
+      Holds b o s ∧ owns n id := by
+  unfold stringComponent
+  rw [h.liveNode]
+  simp only [Outcome.bind_ok]
+  obtain ⟨b, hb, hl, hsz, hss, hcase⟩ := h
+  rcases hcase with ⟨hlen, hh⟩ | ⟨hlen, h1, p, bp, hp, hne, hbp, hlp, hh⟩
+  · rw [if_neg (by omega)]
+    exact ⟨n.blk, off, b, rfl, hb, hl, hh, Or.inl rfl⟩
+  · rw [if_pos (by omega)]
+    simp only [readPdata, hp, Outcome.bind_ok]
+    exact ⟨p, 0, bp, rfl, hbp, hlp, hh, Or.inr ⟨by omega, hp⟩⟩
+
+/-- what a caller reads from a node holding `s` (for every length; the reported length is the `int`
+conversion of the real one) -/
+def viewOf (s : Bytes) : View :=
+  let r := toInt s.length
+  if r.1 < 0 then { len := r.1, bytes := [], term := none, strlen := (ByteStr.cPrefix s).length, wrapped := r.2 }
+  else { len := r.1, bytes := s.take r.1.toNat, term := (s ++ [0])[r.1.toNat]?,
+         strlen := (ByteStr.cPrefix s).length, wrapped := r.2 }
+
+theorem toInt_small (x : Int) (h0 : 0 ≤ x) (h : x ≤ INT_MAX) : toInt x = (x, false) := by
+  unfold toInt
+  rw [if_pos ⟨by unfold INT_MIN; unfold INT_MAX at h; omega, h⟩]
+
+theorem toInt_le (x : Int) (h0 : 0 ≤ x) : (toInt x).1 ≤ x := by
+  unfold toInt
+  split
+  · exact Int.le_refl _
+  · rename_i hn
+    simp only [INT_MAX, INT_MIN, intMax] at hn ⊢
+    omega
+
+theorem viewOf_small (s : Bytes) (h : (s.length : Int) ≤ INT_MAX) :
+    viewOf s = { len := s.length, bytes := s, term := some 0, strlen := (ByteStr.cPrefix s).length, wrapped := false } := by
+  unfold viewOf
+  rw [toInt_small _ (by omega) h]
+  simp
+
+theorem observe_spec {m : Mem} {n : Node} {s : Bytes} (hm : MemInv m) (h : Rep m.heap n s) :
+    ∃ m', observe m n = .ok (m', viewOf s) ∧ m'.heap = m.heap ∧ MemInv m' := by
+  unfold observe getStringLen
+  rw [absLen_spec h]
+  simp only [Outcome.bind_ok, Outcome.pure_eq]
+  obtain ⟨id, o, b, hsc, hb, hl, hh, _⟩ := stringComponent_spec h "json_object_get_string"
+  rw [hsc]
+  simp only [Outcome.bind_ok]
+  have hc := hm.cells id b hb
+  obtain ⟨rest, hrest⟩ := hh.drop_eq hc
+  obtain ⟨m1, h1, hm1h, hm1⟩ := strlen_ok m id o b "caller: strlen(ptr)" s rest hm hb hl (by have := hh.1; omega) hrest
+  rw [h1]
+  simp only [Outcome.bind_ok]
+  have hle := toInt_le (s.length : Int) (by omega)
+  unfold viewOf
+  by_cases hneg : (toInt (s.length : Int)).1 < 0
+  · simp only [hneg, if_true]
+    exact ⟨m1, rfl, hm1h, hm1⟩
+  · simp only [hneg, if_false]
+    have hk : (toInt (s.length : Int)).1.toNat ≤ s.length := by omega
+    have hb1 : m1.heap[id]? = some b := by rw [hm1h]; exact hb
+    obtain ⟨m2, h2, hm2h, hm2⟩ := load_ok m1 id o _ b "caller: ptr[0..len)" (s.take (toInt (s.length : Int)).1.toNat) hm1 hb1 hl
+      (by have := hh.1; omega) (hh.slice_bytes hc _ hk)
+    rw [h2]
+    simp only [Outcome.bind_ok]
+    obtain ⟨t, ht, hcell⟩ := hh.cell hc _ hk
+    have hb2 : m2.heap[id]? = some b := by rw [hm2h]; exact hb1
+    obtain ⟨m3, h3, hm3h, hm3⟩ := load_ok m2 id (o + (toInt (s.length : Int)).1.toNat) 1 b "caller: ptr[len]" [t] hm2 hb2 hl
+      (by have := hh.1; omega) hcell
+    rw [h3]
+    simp only [Outcome.bind_ok]
+    refine ⟨m3, ?_, by rw [hm3h, hm2h, hm1h], hm3⟩
+    rw [ht]; rfl
+
+/-- one step of the `Outcome` monad, by rewriting (a `simp`/`rfl` step would make the kernel unfold the
+continuation's range checks on symbolic sizes) -/
+macro "ostep" : tactic => `(tactic| (rw [Outcome.bind_ok]; try dsimp only))
+
+/-! ### writing a value -/
+theorem write_value (m : Mem) (hm : MemInv m) (id o : Nat) (b : Block) (bs : Bytes) (k : Nat) (s1 s2 : String)
+    (hb : m.heap[id]? = some b) (hl : b.live = true) (hk : k = o + bs.length) (hbd : o + bs.length + 1 ≤ b.size) :
+    ∃ m1 m2 b', m.store id o (bs.map some) s1 = .ok m1 ∧ m1.store id k [some 0] s2 = .ok m2 ∧
+      m2.heap = m.heap.set id b' ∧ b'.live = true ∧ b'.size = b.size ∧ Holds b' o bs ∧ MemInv m2 := by
+  subst hk
+  have hid := lt_of_getElem?_some hb
+  have hc := hm.cells id b hb
+  obtain ⟨m1, h1, hm1h, hm1⟩ := store_ok m id o (bs.map some) b s1 hm hb hl (by simp; omega)
+  have hb1 : m1.heap[id]? = some { b with cells := writeAt b.cells o (bs.map some) } := by
+    rw [hm1h, List.getElem?_set_self hid]
+  obtain ⟨m2, h2, hm2h, hm2⟩ := store_ok m1 id (o + bs.length) [some 0] _ s2 hm1 hb1 hl (by simp; omega)
+  refine ⟨m1, m2, { size := b.size, cells := writeAt (writeAt b.cells o (bs.map some)) (o + bs.length) [some 0],
+                    live := b.live }, h1, h2, ?_, ?_, ?_, ?_, hm2⟩
+  · rw [hm2h, hm1h, List.set_set]
+  · exact hl
+  · rfl
+  · have := holds_after_writes b.cells b.size o b.live bs hc hbd
+    exact this
+
+/-! ### sources of memcpy -/
+def SrcOK (heap : List Block) (src : Src) (n : Nat) (bs : Bytes) : Prop :=
+  match src with
+  | .caller obj => n ≤ obj.length ∧ bs = obj.take n
+  | .block id o => ∃ b, heap[id]? = some b ∧ b.live = true ∧ o + n ≤ b.size ∧
+      (b.cells.drop o).take n = bs.map some ∧ bs.length = n
+
+theorem SrcOK.length {heap : List Block} {src : Src} {n : Nat} {bs : Bytes} (h : SrcOK heap src n bs) :
+    bs.length = n := by
+  cases src with
+  | caller obj => obtain ⟨h1, h2⟩ := h; subst h2; simp; omega
+  | block id o => obtain ⟨b, _, _, _, _, h5⟩ := h; exact h5
+
+theorem SrcOK.mono {heap heap' : List Block} {src : Src} {n : Nat} {bs : Bytes} (h : SrcOK heap src n bs)
+    (hf : ∀ (id : Nat) (b : Block), heap[id]? = some b → heap'[id]? = some b) : SrcOK heap' src n bs := by
+  cases src with
+  | caller obj => exact h
+  | block id o =>
+    obtain ⟨b, h1, h2, h3, h4, h5⟩ := h
+    exact ⟨b, hf id b h1, h2, h3, h4, h5⟩
+
+theorem fetch_ok (m : Mem) (src : Src) (n : Nat) (bs : Bytes) (site : String) (hm : MemInv m)
+    (h : SrcOK m.heap src n bs) : ∃ m', fetch m src n site = .ok (m', bs) ∧ m'.heap = m.heap ∧ MemInv m' := by
+  cases src with
+  | caller obj =>
+    obtain ⟨h1, h2⟩ := h
+    refine ⟨m, ?_, rfl, hm⟩
+    unfold fetch; simp only; rw [if_neg (by omega), h2]
+  | block id o =>
+    obtain ⟨b, h1, h2, h3, h4, h5⟩ := h
+    exact load_ok m id o n b site bs hm h1 h2 h3 h4
+
+/-! ### constructor -/
+theorem hdr_ck (site : String) :
+    ckSize ((sizeofJsonObjectString : Int) - sizeofStringUnion) site = .ok hdr := by
+  unfold ckSize; rw [if_pos (by decide)]; rfl
+
+theorem hdr_facts : hdr + sizeofPtr + strNewNulRoom + strNewGuardSlack ≤ intMax ∧ off ≤ hdr ∧
+    intMax ≤ ssizeMax ∧ ssizeMax ≤ sizeMax ∧ 1 ≤ strNewNulRoom ∧ strNewNulRoom ≤ strNewGuardSlack ∧ 1 ≤ sizeofPtr := by
+  decide
+
+theorem lim1_ck (site : String) : ckSize (SSIZE_MAX - (hdr : Nat)) site = .ok (ssizeMax - hdr) := by
+  obtain ⟨f1, f2, f3, f4, f5, f6, f7⟩ := hdr_facts
+  have hS : SSIZE_MAX = (ssizeMax : Int) := rfl
+  have hZ : SIZE_MAX = (sizeMax : Int) := rfl
+  rw [ckSize_ok _ _ (by omega) (by omega)]
+  congr 1
+
+theorem lim_ck (site : String) :
+    ckSize (((ssizeMax - hdr : Nat) : Int) - strNewGuardSlack) site = .ok (ssizeMax - hdr - strNewGuardSlack) := by
+  obtain ⟨f1, f2, f3, f4, f5, f6, f7⟩ := hdr_facts
+  have hZ : SIZE_MAX = (sizeMax : Int) := rfl
+  rw [ckSize_ok _ _ (by omega) (by omega)]
+  congr 1
+
+/-- the request is beyond what `_json_object_new_string` accepts -/
+def bigLen (len : Nat) : Prop := len > ssizeMax - hdr - strNewGuardSlack
+
+theorem newString_spec (m : Mem) (src : Src) (len : Nat) (ok : Bool) (bs : Bytes) (hm : MemInv m)
+    (hsrc : ¬ bigLen len → ok = true → SrcOK m.heap src len bs) :
+    (bigLen len → newString m src len ok = .ok (m, none)) ∧
+    (¬ bigLen len → ok = false → ∃ m', newString m src len ok = .ok (m', none) ∧ m'.heap = m.heap ∧ MemInv m') ∧
+    (¬ bigLen len → ok = true → ∃ m' n b, newString m src len ok = .ok (m', some n) ∧ MemInv m' ∧
+        n.blk = m.heap.length ∧ n.len = (len : Int) ∧ n.pdata = none ∧ m'.heap = m.heap ++ [b] ∧ Rep m'.heap n bs) := by
+  obtain ⟨f1, f2, f3, f4, f5, f6, f7⟩ := hdr_facts
+  have hS : SSIZE_MAX = (ssizeMax : Int) := rfl
+  have hZ : SIZE_MAX = (sizeMax : Int) := rfl
+  unfold newString
+  rw [hdr_ck]; ostep
+  rw [lim1_ck]; ostep
+  rw [lim_ck]; ostep
+  refine ⟨?_, ?_, ?_⟩
+  · intro hbig
+    unfold bigLen at hbig
+    rw [if_pos hbig]
+  · intro hbig hok
+    unfold bigLen at hbig
+    rw [if_neg hbig]
+    rw [ckSize_ok _ _ (by omega) (by omega)]; ostep
+    rw [ckSize_ok _ _ (by omega) (by omega)]; ostep
+    subst hok
+    by_cases hsm : len < ptrSize
+    · rw [if_pos hsm]
+      have hp : ptrSize = sizeofPtr := rfl
+      rw [ckSize_ok _ _ (by omega) (by omega)]; ostep
+      obtain ⟨m', h1, h2, h3⟩ := malloc_fail m ((((hdr : Int) + len).toNat + (strNewNulRoom : Int)).toNat + ((ptrSize : Int) - len)).toNat hm
+      rw [h1]
+      exact ⟨m', rfl, h2, h3⟩
+    · rw [if_neg hsm]
+      rw [Outcome.pure_eq]; ostep
+      obtain ⟨m', h1, h2, h3⟩ := malloc_fail m (((hdr : Int) + len).toNat + (strNewNulRoom : Int)).toNat hm
+      rw [h1]
+      exact ⟨m', rfl, h2, h3⟩
+  · intro hbig hok
+    have hs := hsrc hbig hok
+    have hbl := hs.length
+    unfold bigLen at hbig
+    rw [if_neg hbig]
+    rw [ckSize_ok _ _ (by omega) (by omega)]; ostep
+    rw [ckSize_ok _ _ (by omega) (by omega)]; ostep
+    subst hok
+    have hp : ptrSize = sizeofPtr := rfl
+    -- whatever the object size, it leaves room for the bytes, the NUL and a pointer
+    have key : ∀ objsize : Nat, off + len + 1 ≤ objsize → off + ptrSize + 1 ≤ objsize →
+        ∃ m' n b, (match m.malloc objsize true with
+          | (m, none) => (Outcome.ok (m, none) : Outcome (Mem × Option Node))
+          | (m, some id) => do
+            let l ← ckSsize len "new: jso->len = len"
+            let (m, bs) ← fetch m src len "new: memcpy(jso->c_string.idata, s, len)"
+            let m ← m.store id off (bs.map some) "new: memcpy(jso->c_string.idata, s, len)"
+            let m ← m.store id (off + len) [some 0] "new: idata[len] = 0"
+            .ok (m, some { blk := id, len := l, pdata := none })) = .ok (m', some n) ∧ MemInv m' ∧
+          n.blk = m.heap.length ∧ n.len = (len : Int) ∧ n.pdata = none ∧ m'.heap = m.heap ++ [b] ∧ Rep m'.heap n bs := by
+      intro objsize hsz1 hsz2
+      obtain ⟨m1, h1, hm1h, hm1⟩ := malloc_ok m objsize hm
+      rw [h1]
+      simp only
+      rw [ckSsize_ok _ _ (by omega) (by omega)]; ostep
+      have hs1 : SrcOK m1.heap src len bs := hs.mono (by
+        intro id b hb; rw [hm1h, List.getElem?_append_left (lt_of_getElem?_some hb)]; exact hb)
+      obtain ⟨m2, h2, hm2h, hm2⟩ := fetch_ok m1 src len bs "new: memcpy(jso->c_string.idata, s, len)" hm1 hs1
+      rw [h2]; ostep
+      have hb2 : m2.heap[m.heap.length]? = some { size := objsize, cells := List.replicate objsize none, live := true } := by
+        rw [hm2h, hm1h, List.getElem?_append_right (Nat.le_refl _)]; simp
+      obtain ⟨m3, m4, b', h3, h4, hm4h, hl', hsz', hh, hm4⟩ := write_value m2 hm2 m.heap.length off _ bs (off + len)
+        "new: memcpy(jso->c_string.idata, s, len)" "new: idata[len] = 0" hb2 rfl (by omega) (by dsimp only; omega)
+      rw [h3]; ostep
+      rw [h4]; ostep
+      have hheap : m4.heap = m.heap ++ [b'] := by
+        rw [hm4h, hm2h, hm1h]
+        rw [List.set_append_right _ _ (Nat.le_refl _)]; simp
+      refine ⟨m4, _, b', rfl, hm4, rfl, rfl, rfl, hheap, ?_⟩
+      refine ⟨b', ?_, hl', ?_, ?_, Or.inl ⟨?_, hh⟩⟩
+      · rw [hheap, List.getElem?_append_right (Nat.le_refl _)]; simp
+      · rw [hsz']; exact hsz2
+      · rw [hbl]; omega
+      · dsimp only; rw [hbl]
+    by_cases hsm : len < ptrSize
+    · rw [if_pos hsm]
+      rw [ckSize_ok _ _ (by omega) (by omega)]; ostep
+      exact key _ (by omega) (by omega)
+    · rw [if_neg hsm]
+      rw [Outcome.pure_eq]; ostep
+      exact key _ (by omega) (by omega)
+
+/-! ### _json_object_set_string_len -/
+theorem set_facts : 1 ≤ strGrowNulRoom ∧ strGrowNulRoom + intMax ≤ sizeMax ∧ intMax ≤ ssizeMax ∧ ssizeMax ≤ sizeMax := by
+  decide
+
+theorem getElem?_set_self' {α : Type} (l : List α) (i : Nat) (a : α) (h : i < l.length) : (l.set i a)[i]? = some a :=
+  List.getElem?_set_self h
+
+/-- the growing path after the new buffer exists and the old one (if any) is gone -/
+theorem grow_finish (m1 : Mem) (hm1 : MemInv m1) (n : Node) (id len : Nat) (b nb : Block) (bs : Bytes)
+    (hb : m1.heap[n.blk]? = some b) (hl : b.live = true) (hsz : off + ptrSize + 1 ≤ b.size)
+    (hnb : m1.heap[id]? = some nb) (hnl : nb.live = true) (hnsz : len + 1 ≤ nb.size) (hne : id ≠ n.blk)
+    (hbs : bs.length = len) :
+    ∃ m2 m3 m4 b2 nb', m1.store n.blk off (List.replicate ptrSize none) "set: c_string.pdata = dstbuf" = .ok m2 ∧
+      m2.store id 0 (bs.map some) "set: memcpy(dstbuf, s, len)" = .ok m3 ∧
+      m3.store id len [some 0] "set: dstbuf[len] = 0" = .ok m4 ∧
+      m4.heap = (m1.heap.set n.blk b2).set id nb' ∧ MemInv m4 ∧
+      b2.live = true ∧ b2.size = b.size ∧ nb'.live = true ∧ Holds nb' 0 bs := by
+  have hidn := lt_of_getElem?_some hb
+  obtain ⟨m2, h2, hm2h, hm2⟩ := store_ok m1 n.blk off (List.replicate ptrSize none) b _ hm1 hb hl (by simp; omega)
+  have hnb2 : m2.heap[id]? = some nb := by rw [hm2h, List.getElem?_set_ne (Ne.symm hne)]; exact hnb
+  obtain ⟨m3, m4, nb', h3, h4, hm4h, hl', hsz', hh, hm4⟩ := write_value m2 hm2 id 0 nb bs len _ _ hnb2 hnl (by omega) (by omega)
+  refine ⟨m2, m3, m4, { b with cells := writeAt b.cells off (List.replicate ptrSize none) }, nb', h2, h3, h4, ?_, hm4, hl, rfl, hl', hh⟩
+  rw [hm4h, hm2h]
+
+
+theorem fetch_caller (m : Mem) (obj : Bytes) (len : Nat) (site : String) (h : len ≤ obj.length) :
+    fetch m (.caller obj) len site = .ok (m, obj.take len) := by
+  unfold fetch; simp only; rw [if_neg (by omega)]
+
+theorem owns_blk (n : Node) : owns n n.blk := Or.inl rfl
+
+theorem setString_spec (m : Mem) (n : Node) (s obj : Bytes) (len : Nat) (ok : Bool) (hm : MemInv m)
+    (hr : Rep m.heap n s) (hsrc : (len : Int) < INT_MAX - strSetGuardSlack → len ≤ obj.length) :
+    ∃ m' n' ret, setString m n (.caller obj) len ok = .ok (m', n', ret) ∧ MemInv m' ∧
+      Frame m.heap (owns n) m'.heap (owns n') ∧
+      ((ret = 1 ∧ Rep m'.heap n' (obj.take len) ∧ (len : Int) < INT_MAX - strSetGuardSlack ∧
+          (ok = true ∨ len ≤ s.length)) ∨
+       (ret = 0 ∧ n' = n ∧ m'.heap = m.heap ∧
+          ((len : Int) ≥ INT_MAX - strSetGuardSlack ∨ (ok = false ∧ s.length < len)))) := by
+  obtain ⟨g1, g2, g3, g4⟩ := set_facts
+  have hS : SSIZE_MAX = (ssizeMax : Int) := rfl
+  have hZ : SIZE_MAX = (sizeMax : Int) := rfl
+  have hI : INT_MAX = (intMax : Int) := rfl
+  unfold setString
+  rw [hr.liveNode]; ostep
+  by_cases hg : (len : Int) ≥ INT_MAX - strSetGuardSlack
+  · rw [if_pos hg]
+    exact ⟨m, n, 0, rfl, hm, Frame.same hr, Or.inr ⟨rfl, rfl, rfl, Or.inl hg⟩⟩
+  · rw [if_neg hg]
+    have hlo := hsrc (by omega)
+    have hbl : (obj.take len).length = len := by simp; omega
+    have hsrcok : ∀ heap, SrcOK heap (.caller obj) len (obj.take len) := fun _ => ⟨hlo, rfl⟩
+    have hrr := hr
+    obtain ⟨b, hb, hl, hsz, hss, hcase⟩ := hr
+    have hnblk := lt_of_getElem?_some hb
+    rcases hcase with ⟨hlen, hh⟩ | ⟨hlen, h1, p, bp, hp, hne, hbp, hlp, hh⟩
+    · -- inline
+      have hnn : ¬ n.len < 0 := by omega
+      rw [if_neg hnn, Outcome.pure_eq]; ostep
+      rw [ckSsize_ok _ _ (by omega) (by omega)]; ostep
+      obtain ⟨id, o, b', hsc, hb', hl', hh', _⟩ := stringComponent_spec hrr "set: get_string_component_mutable"
+      have hsc' : stringComponent m n "set: get_string_component_mutable" = .ok (n.blk, off) := by
+        unfold stringComponent; rw [hrr.liveNode]; ostep; rw [if_neg (by omega)]; rfl
+      rw [hsc']; ostep
+      rw [ckSsize_ok _ _ (by omega) (by omega)]; ostep
+      by_cases hgrow : (len : Int) > n.len
+      · rw [if_pos hgrow]
+        rw [ckSize_ok _ _ (by omega) (by omega)]; ostep
+        have hszv : len + 1 ≤ ((len : Int) + (strGrowNulRoom : Int)).toNat := by omega
+        generalize ((len : Int) + (strGrowNulRoom : Int)).toNat = sz at hszv ⊢
+        cases ok
+        · obtain ⟨m1, h1, hm1h, hm1⟩ := malloc_fail m sz hm
+          rw [h1]; dsimp only
+          exact ⟨m1, n, 0, rfl, hm1, by rw [hm1h]; exact Frame.same hrr, Or.inr ⟨rfl, rfl, hm1h, Or.inr ⟨rfl, by omega⟩⟩⟩
+        · obtain ⟨m1, h1, hm1h, hm1⟩ := malloc_ok m sz hm
+          rw [h1]; dsimp only
+          rw [if_neg hnn, Outcome.pure_eq]; ostep
+          have hb1 : m1.heap[n.blk]? = some b := by rw [hm1h, List.getElem?_append_left hnblk]; exact hb
+          have hnb1 : m1.heap[m.heap.length]? = some { size := sz, cells := List.replicate sz none, live := true } := by
+            rw [hm1h, List.getElem?_append_right (Nat.le_refl _)]; simp
+          obtain ⟨m2, m3, m4, b2, nb', h2, h3, h4, hm4h, hm4, hl2, hsz2, hlnb, hhnb⟩ :=
+            grow_finish m1 hm1 n m.heap.length len b _ (obj.take len) hb1 hl hsz hnb1 rfl (by dsimp only; omega) (by omega) hbl
+          rw [h2]; ostep
+          rw [ckSsize_ok _ _ (by omega) (by omega)]; ostep
+          rw [fetch_caller _ _ _ _ hlo]; ostep
+          rw [h3]; ostep
+          rw [h4]; ostep
+          have hlen4 : m4.heap.length = m.heap.length + 1 := by rw [hm4h, hm1h]; simp
+          have hg4n : m4.heap[n.blk]? = some b2 := by
+            rw [hm4h, hm1h, List.getElem?_set_ne (by omega), List.getElem?_set_self (by simp; omega)]
+          have hg4i : m4.heap[m.heap.length]? = some nb' := by
+            rw [hm4h, hm1h, List.getElem?_set_self (by simp)]
+          refine ⟨m4, _, 1, rfl, hm4, ?_, Or.inl ⟨rfl, ?_, by omega, Or.inl rfl⟩⟩
+          · refine ⟨by omega, ?_, ?_, ?_⟩
+            · intro i hi hno
+              have : i ≠ n.blk := fun hc => hno (Or.inl hc)
+              rw [hm4h, hm1h, List.getElem?_set_ne (by omega), List.getElem?_set_ne (Ne.symm this), List.getElem?_append_left hi]
+            · intro i b'' hb'' hor
+              by_cases hi1 : i = n.blk
+              · subst hi1; rw [hg4n] at hb''; injection hb'' with hb''; subst hb''
+                exact ⟨fun _ => Or.inl rfl, fun _ => hl2⟩
+              · by_cases hi2 : i = m.heap.length
+                · subst hi2; rw [hg4i] at hb''; injection hb'' with hb''; subst hb''
+                  exact ⟨fun _ => Or.inr ⟨by dsimp only; omega, rfl⟩, fun _ => hlnb⟩
+                · exfalso
+                  have := lt_of_getElem?_some hb''
+                  rcases hor with hge | ho
+                  · omega
+                  · rcases ho with ho | ⟨hneg, _⟩
+                    · exact hi1 ho
+                    · omega
+            · intro i ho
+              rcases ho with ho | ⟨_, hpd⟩
+              · exact Or.inr (Or.inl ho)
+              · dsimp only at hpd; injection hpd with hpd; left; omega
+          · refine ⟨b2, hg4n, hl2, by omega, by rw [hbl]; omega, Or.inr ⟨by simp [hbl], by rw [hbl]; omega, m.heap.length, nb', rfl, by dsimp only; omega, hg4i, hlnb, hhnb⟩⟩
+      · rw [if_neg hgrow]
+        rw [if_neg (by omega)]; rw [Outcome.pure_eq]; ostep
+        obtain ⟨m1, hf, hm1h, hm1⟩ := fetch_ok m (.caller obj) len _ "set: memcpy(dstbuf, s, len)" hm (hsrcok _)
+        rw [hf]; ostep
+        have hb1 : m1.heap[n.blk]? = some b := by rw [hm1h]; exact hb
+        obtain ⟨m2, m3, b3, h2, h3, hm3h, hl3, hsz3, hh3, hm3⟩ := write_value m1 hm1 n.blk off b (obj.take len) (off + len)
+          "set: memcpy(dstbuf, s, len)" "set: dstbuf[len] = 0" hb1 hl (by omega) (by have := hh.1; omega)
+        rw [h2]; ostep
+        rw [h3]; ostep
+        rw [if_neg (by omega)]
+        have hheap : m3.heap = m.heap.set n.blk b3 := by rw [hm3h, hm1h]
+        refine ⟨m3, _, 1, rfl, hm3, ?_, Or.inl ⟨rfl, ?_, by omega, Or.inr (by omega)⟩⟩
+        · rw [hheap]
+          refine ⟨by simp, ?_, ?_, ?_⟩
+          · intro i hi hno
+            rw [List.getElem?_set_ne]
+            intro hc; exact hno (Or.inl hc.symm)
+          · intro i b'' hb'' hor
+            rcases hor with hge | ho
+            · have := lt_of_getElem?_some hb''; simp at this; omega
+            · rcases ho with ho | ⟨hneg, _⟩
+              · subst ho
+                rw [List.getElem?_set_self hnblk] at hb''
+                injection hb'' with hb''; subst hb''
+                exact ⟨fun _ => Or.inl rfl, fun _ => hl3⟩
+              · omega
+          · intro i ho
+            rcases ho with ho | ⟨hneg, _⟩
+            · exact Or.inr (Or.inl ho)
+            · simp at hneg; omega
+        · refine ⟨b3, by rw [hheap, List.getElem?_set_self hnblk], hl3, by omega, by rw [hbl]; omega, Or.inl ⟨by simp [hbl], hh3⟩⟩
+    · -- separately allocated buffer
+      have hneg : n.len < 0 := by omega
+      have hpl := lt_of_getElem?_some hbp
+      have hrp : readPdata n "set: free(pdata), len == 0" = .ok p := by unfold readPdata; rw [hp]
+      have hrp2 : readPdata n "set: free(old pdata)" = .ok p := by unfold readPdata; rw [hp]
+      rw [if_pos hneg]
+      by_cases hz : len = 0
+      · -- shrink to the empty string: the buffer is released, the bytes go inline
+        rw [if_pos hz, hrp]; ostep
+        obtain ⟨m1, h1, hm1h, hm1⟩ := free_ok m p bp "set: free(pdata), len == 0" hm hbp hlp
+        rw [h1]; ostep
+        rw [Outcome.pure_eq]; ostep
+        rw [ckSsize_ok _ _ (by omega) (by omega)]; ostep
+        have hb1 : m1.heap[n.blk]? = some b := by rw [hm1h, List.getElem?_set_ne hne]; exact hb
+        have hsc' : stringComponent m1 { blk := n.blk, len := 0, pdata := n.pdata } "set: get_string_component_mutable" = .ok (n.blk, off) := by
+          unfold stringComponent
+          rw [liveNode_ok m1 { blk := n.blk, len := 0, pdata := n.pdata } _ b hb1 hl]; ostep
+          rw [if_neg (by omega)]; rfl
+        rw [hsc']; ostep
+        rw [ckSsize_ok _ _ (by omega) (by omega)]; ostep
+        rw [if_neg (by omega), if_neg (by omega), Outcome.pure_eq]; ostep
+        rw [fetch_caller _ _ _ _ hlo]; ostep
+        obtain ⟨m2, m3, b3, h2, h3, hm3h, hl3, hsz3, hh3, hm3⟩ := write_value m1 hm1 n.blk off b (obj.take len) (off + len)
+          "set: memcpy(dstbuf, s, len)" "set: dstbuf[len] = 0" hb1 hl (by omega) (by omega)
+        rw [h2]; ostep
+        rw [h3]; ostep
+        rw [if_neg (by omega)]
+        have hg3n : m3.heap[n.blk]? = some b3 := by
+          rw [hm3h, List.getElem?_set_self (by rw [hm1h]; simp; omega)]
+        have hg3p : m3.heap[p]? = some { bp with live := false } := by
+          rw [hm3h, hm1h, List.getElem?_set_ne (Ne.symm hne), List.getElem?_set_self hpl]
+        refine ⟨m3, _, 1, rfl, hm3, ?_, Or.inl ⟨rfl, ?_, by omega, Or.inr (by omega)⟩⟩
+        · refine ⟨by rw [hm3h, hm1h]; simp, ?_, ?_, ?_⟩
+          · intro i hi hno
+            have h1' : i ≠ n.blk := fun hc => hno (Or.inl hc)
+            have h2' : i ≠ p := fun hc => hno (Or.inr ⟨hneg, by rw [hp, hc]⟩)
+            rw [hm3h, hm1h, List.getElem?_set_ne (Ne.symm h1'), List.getElem?_set_ne (Ne.symm h2')]
+          · intro i b'' hb'' hor
+            by_cases hi1 : i = n.blk
+            · subst hi1; rw [hg3n] at hb''; injection hb'' with hb''; subst hb''
+              exact ⟨fun _ => Or.inl rfl, fun _ => hl3⟩
+            · by_cases hi2 : i = p
+              · subst hi2; rw [hg3p] at hb''; injection hb'' with hb''; subst hb''
+                constructor
+                · intro hc; simp at hc
+                · intro ho; rcases ho with ho | ⟨hc, _⟩
+                  · exact absurd ho hi1
+                  · dsimp only at hc; omega
+              · exfalso
+                have := lt_of_getElem?_some hb''
+                rw [hm3h, hm1h] at this; simp at this
+                rcases hor with hge | ho
+                · omega
+                · rcases ho with ho | ⟨_, hpd⟩
+                  · exact hi1 ho
+                  · rw [hp] at hpd; injection hpd with hpd; exact hi2 hpd.symm
+          · intro i ho
+            rcases ho with ho | ⟨hc, _⟩
+            · exact Or.inr (Or.inl ho)
+            · dsimp only at hc; omega
+        · refine ⟨b3, hg3n, hl3, by omega, by rw [hbl]; omega, Or.inl ⟨by simp [hbl], hh3⟩⟩
+      · rw [if_neg hz]
+        rw [ckSsize_ok _ _ (by omega) (by omega)]; ostep
+        rw [Outcome.pure_eq]; ostep
+        rw [ckSsize_ok _ _ (by omega) (by omega)]; ostep
+        have hsc' : stringComponent m n "set: get_string_component_mutable" = .ok (p, 0) := by
+          unfold stringComponent
+          rw [hrr.liveNode]; ostep
+          rw [if_pos hneg]
+          unfold readPdata; rw [hp]; rfl
+        rw [hsc']; ostep
+        rw [ckSsize_ok _ _ (by omega) (by omega)]; ostep
+        by_cases hgrow : (len : Int) > -n.len
+        · rw [if_pos hgrow]
+          rw [ckSize_ok _ _ (by omega) (by omega)]; ostep
+          have hszv : len + 1 ≤ ((len : Int) + (strGrowNulRoom : Int)).toNat := by omega
+          generalize ((len : Int) + (strGrowNulRoom : Int)).toNat = sz at hszv ⊢
+          cases ok
+          · obtain ⟨m1, h1, hm1h, hm1⟩ := malloc_fail m sz hm
+            rw [h1]; dsimp only
+            exact ⟨m1, n, 0, rfl, hm1, by rw [hm1h]; exact Frame.same hrr, Or.inr ⟨rfl, rfl, hm1h, Or.inr ⟨rfl, by omega⟩⟩⟩
+          · obtain ⟨m1, h1, hm1h, hm1⟩ := malloc_ok m sz hm
+            rw [h1]; dsimp only
+            rw [if_pos hneg, hrp2]; ostep
+            have hbp1 : m1.heap[p]? = some bp := by rw [hm1h, List.getElem?_append_left hpl]; exact hbp
+            obtain ⟨m1', h1', hm1h', hm1'⟩ := free_ok m1 p bp "set: free(old pdata)" hm1 hbp1 hlp
+            rw [h1']; ostep
+            have hb1 : m1'.heap[n.blk]? = some b := by
+              rw [hm1h', List.getElem?_set_ne hne, hm1h, List.getElem?_append_left hnblk]; exact hb
+            have hnb1 : m1'.heap[m.heap.length]? = some { size := sz, cells := List.replicate sz none, live := true } := by
+              rw [hm1h', List.getElem?_set_ne (by omega), hm1h, List.getElem?_append_right (Nat.le_refl _)]; simp
+            obtain ⟨m2, m3, m4, b2, nb', h2, h3, h4, hm4h, hm4, hl2, hsz2, hlnb, hhnb⟩ :=
+              grow_finish m1' hm1' n m.heap.length len b _ (obj.take len) hb1 hl hsz hnb1 rfl (by dsimp only; omega) (by omega) hbl
+            rw [h2]; ostep
+            rw [ckSsize_ok _ _ (by omega) (by omega)]; ostep
+            rw [fetch_caller _ _ _ _ hlo]; ostep
+            rw [h3]; ostep
+            rw [h4]; ostep
+            have hlen4 : m4.heap.length = m.heap.length + 1 := by rw [hm4h, hm1h', hm1h]; simp
+            have hg4n : m4.heap[n.blk]? = some b2 := by
+              rw [hm4h, List.getElem?_set_ne (by omega), List.getElem?_set_self (by rw [hm1h', hm1h]; simp; omega)]
+            have hg4i : m4.heap[m.heap.length]? = some nb' := by
+              rw [hm4h, List.getElem?_set_self (by rw [hm1h', hm1h]; simp)]
+            have hg4p : m4.heap[p]? = some { bp with live := false } := by
+              rw [hm4h, List.getElem?_set_ne (by omega), List.getElem?_set_ne (Ne.symm hne), hm1h',
+                List.getElem?_set_self (by rw [hm1h]; simp; omega)]
+            refine ⟨m4, _, 1, rfl, hm4, ?_, Or.inl ⟨rfl, ?_, by omega, Or.inl rfl⟩⟩
+            · refine ⟨by omega, ?_, ?_, ?_⟩
+              · intro i hi hno
+                have h1'' : i ≠ n.blk := fun hc => hno (Or.inl hc)
+                have h2'' : i ≠ p := fun hc => hno (Or.inr ⟨hneg, by rw [hp, hc]⟩)
+                rw [hm4h, List.getElem?_set_ne (by omega), List.getElem?_set_ne (Ne.symm h1''), hm1h',
+                  List.getElem?_set_ne (Ne.symm h2''), hm1h, List.getElem?_append_left hi]
+              · intro i b'' hb'' hor
+                by_cases hi1 : i = n.blk
+                · subst hi1; rw [hg4n] at hb''; injection hb'' with hb''; subst hb''
+                  exact ⟨fun _ => Or.inl rfl, fun _ => hl2⟩
+                · by_cases hi2 : i = m.heap.length
+                  · subst hi2; rw [hg4i] at hb''; injection hb'' with hb''; subst hb''
+                    exact ⟨fun _ => Or.inr ⟨by dsimp only; omega, rfl⟩, fun _ => hlnb⟩
+                  · by_cases hi3 : i = p
+                    · subst hi3; rw [hg4p] at hb''; injection hb'' with hb''; subst hb''
+                      constructor
+                      · intro hc; simp at hc
+                      · intro ho; rcases ho with ho | ⟨_, hpd⟩
+                        · exact absurd ho hi1
+                        · dsimp only at hpd; injection hpd with hpd; omega
+                    · exfalso
+                      have := lt_of_getElem?_some hb''
+                      rcases hor with hge | ho
+                      · omega
+                      · rcases ho with ho | ⟨_, hpd⟩
+                        · exact hi1 ho
+                        · rw [hp] at hpd; injection hpd with hpd; exact hi3 hpd.symm
+              · intro i ho
+                rcases ho with ho | ⟨_, hpd⟩
+                · exact Or.inr (Or.inl ho)
+                · dsimp only at hpd; injection hpd with hpd; left; omega
+            · refine ⟨b2, hg4n, hl2, by omega, by rw [hbl]; omega, Or.inr ⟨by simp [hbl], by rw [hbl]; omega, m.heap.length, nb', rfl, by dsimp only; omega, hg4i, hlnb, hhnb⟩⟩
+        · rw [if_neg hgrow, if_pos hneg]
+          rw [ckSsize_ok _ _ (by omega) (by omega)]; ostep
+          rw [fetch_caller _ _ _ _ hlo]; ostep
+          obtain ⟨m2, m3, b3, h2, h3, hm3h, hl3, hsz3, hh3, hm3⟩ := write_value m hm p 0 bp (obj.take len) (0 + len)
+            "set: memcpy(dstbuf, s, len)" "set: dstbuf[len] = 0" hbp hlp (by omega) (by have := hh.1; omega)
+          rw [h2]; ostep
+          rw [h3]; ostep
+          rw [if_pos hneg]
+          have hg3p : m3.heap[p]? = some b3 := by rw [hm3h, List.getElem?_set_self hpl]
+          have hg3n : m3.heap[n.blk]? = some b := by rw [hm3h, List.getElem?_set_ne hne]; exact hb
+          refine ⟨m3, _, 1, rfl, hm3, ?_, Or.inl ⟨rfl, ?_, by omega, Or.inr (by omega)⟩⟩
+          · refine ⟨by rw [hm3h]; simp, ?_, ?_, ?_⟩
+            · intro i hi hno
+              have h2' : i ≠ p := fun hc => hno (Or.inr ⟨hneg, by rw [hp, hc]⟩)
+              rw [hm3h, List.getElem?_set_ne (Ne.symm h2')]
+            · intro i b'' hb'' hor
+              by_cases hi1 : i = n.blk
+              · subst hi1; rw [hg3n] at hb''; injection hb'' with hb''; subst hb''
+                exact ⟨fun _ => Or.inl rfl, fun _ => hl⟩
+              · by_cases hi2 : i = p
+                · subst hi2; rw [hg3p] at hb''; injection hb'' with hb''; subst hb''
+                  exact ⟨fun _ => Or.inr ⟨by dsimp only; omega, hp⟩, fun _ => hl3⟩
+                · exfalso
+                  have := lt_of_getElem?_some hb''
+                  rw [hm3h] at this; simp at this
+                  rcases hor with hge | ho
+                  · omega
+                  · rcases ho with ho | ⟨_, hpd⟩
+                    · exact hi1 ho
+                    · rw [hp] at hpd; injection hpd with hpd; exact hi2 hpd.symm
+            · intro i ho
+              rcases ho with ho | ⟨_, hpd⟩
+              · exact Or.inr (Or.inl ho)
+              · dsimp only at hpd; exact Or.inr (Or.inr ⟨hneg, hpd⟩)
+          · refine ⟨b, hg3n, hl, hsz, by rw [hbl]; omega, Or.inr ⟨by simp [hbl], by rw [hbl]; omega, p, b3, hp, hne, hg3p, hl3, hh3⟩⟩
+
+/-! ### delete, equality, copy, serializer reads -/
+theorem stringDelete_spec (m : Mem) (n : Node) (s : Bytes) (hm : MemInv m) (hr : Rep m.heap n s) :
+    ∃ m', stringDelete m n = .ok m' ∧ MemInv m' ∧ Frame m.heap (owns n) m'.heap (fun _ => False) := by
+  unfold stringDelete
+  rw [hr.liveNode]; ostep
+  have hrr := hr
+  obtain ⟨b, hb, hl, hsz, hss, hcase⟩ := hr
+  have hnblk := lt_of_getElem?_some hb
+  rcases hcase with ⟨hlen, hh⟩ | ⟨hlen, h1, p, bp, hp, hne, hbp, hlp, hh⟩
+  · have hnn : ¬ n.len < 0 := by omega
+    rw [if_neg hnn, Outcome.pure_eq]; ostep
+    obtain ⟨m1, h1, hm1h, hm1⟩ := free_ok m n.blk b "delete: free(jso)" hm hb hl
+    refine ⟨m1, h1, hm1, ?_⟩
+    refine ⟨by rw [hm1h]; simp, ?_, ?_, fun _ h => h.elim⟩
+    · intro i hi hno
+      have : i ≠ n.blk := fun hc => hno (Or.inl hc)
+      rw [hm1h, List.getElem?_set_ne (Ne.symm this)]
+    · intro i b'' hb'' hor
+      have hlt := lt_of_getElem?_some hb''
+      rw [hm1h] at hlt; simp at hlt
+      have hi : i = n.blk := by
+        rcases hor with hge | ho
+        · omega
+        · rcases ho with ho | ⟨hneg, _⟩
+          · exact ho
+          · omega
+      subst hi
+      rw [hm1h, List.getElem?_set_self hnblk] at hb''
+      injection hb'' with hb''; subst hb''
+      simp
+  · have hneg : n.len < 0 := by omega
+    have hpl := lt_of_getElem?_some hbp
+    rw [if_pos hneg]
+    have hrp : readPdata n "delete: free(pdata)" = .ok p := by unfold readPdata; rw [hp]
+    rw [hrp]; ostep
+    obtain ⟨m1, h1, hm1h, hm1⟩ := free_ok m p bp "delete: free(pdata)" hm hbp hlp
+    rw [h1]; ostep
+    have hb1 : m1.heap[n.blk]? = some b := by rw [hm1h, List.getElem?_set_ne hne]; exact hb
+    obtain ⟨m2, h2, hm2h, hm2⟩ := free_ok m1 n.blk b "delete: free(jso)" hm1 hb1 hl
+    refine ⟨m2, h2, hm2, ?_⟩
+    refine ⟨by rw [hm2h, hm1h]; simp, ?_, ?_, fun _ h => h.elim⟩
+    · intro i hi hno
+      have h1' : i ≠ n.blk := fun hc => hno (Or.inl hc)
+      have h2' : i ≠ p := fun hc => hno (Or.inr ⟨hneg, by rw [hp, hc]⟩)
+      rw [hm2h, List.getElem?_set_ne (Ne.symm h1'), hm1h, List.getElem?_set_ne (Ne.symm h2')]
+    · intro i b'' hb'' hor
+      have hlt := lt_of_getElem?_some hb''
+      rw [hm2h, hm1h] at hlt; simp at hlt
+      by_cases hi1 : i = n.blk
+      · subst hi1
+        rw [hm2h, List.getElem?_set_self (by rw [hm1h]; simp; omega)] at hb''
+        injection hb'' with hb''; subst hb''; simp
+      · have hi : i = p := by
+          rcases hor with hge | ho
+          · omega
+          · rcases ho with ho | ⟨_, hpd⟩
+            · exact absurd ho hi1
+            · rw [hp] at hpd; injection hpd with hpd; exact hpd.symm
+        subst hi
+        rw [hm2h, List.getElem?_set_ne (Ne.symm hi1), hm1h, List.getElem?_set_self hpl] at hb''
+        injection hb'' with hb''; subst hb''; simp
+
+theorem equalStr_spec (m : Mem) (n1 n2 : Node) (s1 s2 : Bytes) (hm : MemInv m)
+    (h1 : Rep m.heap n1 s1) (h2 : Rep m.heap n2 s2) :
+    ∃ m', equalStr m n1 n2 = .ok (m', ByteStr.equal s1 s2) ∧ m'.heap = m.heap ∧ MemInv m' := by
+  have hS : SSIZE_MAX = (ssizeMax : Int) := rfl
+  have hZ : SIZE_MAX = (sizeMax : Int) := rfl
+  have g4 : ssizeMax ≤ sizeMax := c_ssize_le_size
+  unfold equalStr
+  rw [absLen_spec h1]; ostep
+  rw [absLen_spec h2]; ostep
+  by_cases hne : (s1.length : Int) ≠ s2.length
+  · rw [if_pos hne]
+    refine ⟨m, ?_, rfl, hm⟩
+    have : s1 ≠ s2 := by intro hc; subst hc; exact hne rfl
+    unfold ByteStr.equal
+    rw [beq_eq_false_iff_ne.mpr this]
+  · rw [if_neg hne]
+    have hleq : s1.length = s2.length := by omega
+    obtain ⟨id1, o1, b1, hsc1, hb1, hl1, hh1, _⟩ := stringComponent_spec h1 "equal: get_string_component(jso1)"
+    obtain ⟨id2, o2, b2, hsc2, hb2, hl2, hh2, _⟩ := stringComponent_spec h2 "equal: get_string_component(jso2)"
+    rw [hsc1]; ostep
+    rw [hsc2]; ostep
+    rw [absLen_spec h1]; ostep
+    have hss1 : (s1.length : Int) ≤ SSIZE_MAX := by obtain ⟨_, _, _, _, hss, _⟩ := h1; exact hss
+    rw [ckSize_ok _ _ (by omega) (by omega)]; ostep
+    have htn : (s1.length : Int).toNat = s1.length := by omega
+    rw [htn]
+    have hc1 := hm.cells id1 b1 hb1
+    obtain ⟨m1, hl1', hm1h, hm1⟩ := load_ok m id1 o1 s1.length b1 "equal: memcmp" s1 hm hb1 hl1
+      (by have := hh1.1; omega) (by rw [hh1.slice_bytes hc1 _ (Nat.le_refl _), List.take_length])
+    rw [hl1']; ostep
+    have hb2' : m1.heap[id2]? = some b2 := by rw [hm1h]; exact hb2
+    have hc2 := hm.cells id2 b2 hb2
+    obtain ⟨m2, hl2', hm2h, hm2⟩ := load_ok m1 id2 o2 s1.length b2 "equal: memcmp" s2 hm1 hb2' hl2
+      (by have := hh2.1; omega) (by rw [hleq, hh2.slice_bytes hc2 _ (Nat.le_refl _), List.take_length])
+    rw [hl2']; ostep
+    exact ⟨m2, rfl, by rw [hm2h, hm1h], hm2⟩
+
+theorem serializePayload_spec (m : Mem) (n : Node) (s : Bytes) (hm : MemInv m) (h : Rep m.heap n s) :
+    ∃ m', serializePayload m n = .ok (m', s) ∧ m'.heap = m.heap ∧ MemInv m' := by
+  have hS : SSIZE_MAX = (ssizeMax : Int) := rfl
+  have hZ : SIZE_MAX = (sizeMax : Int) := rfl
+  have g4 : ssizeMax ≤ sizeMax := c_ssize_le_size
+  unfold serializePayload
+  rw [h.liveNode]; ostep
+  obtain ⟨id, o, b, hsc, hb, hl, hh, _⟩ := stringComponent_spec h "serialize: get_string_component"
+  rw [hsc]; ostep
+  have hss : (s.length : Int) ≤ SSIZE_MAX := by obtain ⟨_, _, _, _, hss, _⟩ := h; exact hss
+  have hc := hm.cells id b hb
+  have htn : (s.length : Int).toNat = s.length := by omega
+  have fin : ∃ m', (do
+      let cnt ← ckSize (s.length : Int) "serialize: len as size_t"
+      m.load id o cnt "serialize: json_escape_str reads str[0..len)") = .ok (m', s) ∧ m'.heap = m.heap ∧ MemInv m' := by
+    rw [ckSize_ok _ _ (by omega) (by omega)]; ostep
+    rw [htn]
+    exact load_ok m id o s.length b _ s hm hb hl (by have := hh.1; omega)
+      (by rw [hh.slice_bytes hc _ (Nat.le_refl _), List.take_length])
+  obtain ⟨_, _, _, _, _, hcase⟩ := h
+  rcases hcase with ⟨hlen, _⟩ | ⟨hlen, h1, _⟩
+  · rw [if_neg (by omega), Outcome.pure_eq]; ostep
+    rw [hlen]; exact fin
+  · rw [if_pos (by omega), hlen, ckSsize_ok _ _ (by omega) (by omega)]; ostep
+    rw [Int.neg_neg]; exact fin
+
+
+theorem toInt_range (x : Int) : INT_MIN ≤ (toInt x).1 ∧ (toInt x).1 ≤ INT_MAX := by
+  unfold toInt
+  split
+  · rename_i h; exact h
+  · simp only [INT_MAX, INT_MIN, intMax]
+    omega
+
+theorem copy_facts : ssizeMax + intMax + 1 ≤ sizeMax ∧ intMax + hdr + strNewGuardSlack ≤ ssizeMax := by decide
+
+theorem shallowCopy_spec (m : Mem) (n : Node) (s : Bytes) (ok : Bool) (hm : MemInv m) (h : Rep m.heap n s) :
+    ((toInt s.length).1 < 0 ∨ ok = false →
+        ∃ m', shallowCopy m n ok = .ok (m', none, (toInt s.length).2) ∧ m'.heap = m.heap ∧ MemInv m') ∧
+    (0 ≤ (toInt s.length).1 → ok = true →
+        ∃ m' c b, shallowCopy m n ok = .ok (m', some c, (toInt s.length).2) ∧ MemInv m' ∧
+          c.blk = m.heap.length ∧ c.pdata = none ∧ m'.heap = m.heap ++ [b] ∧
+          Rep m'.heap c (s.take (toInt s.length).1.toNat)) := by
+  obtain ⟨f1, f2, f3, f4, f5, f6, f7⟩ := hdr_facts
+  have hS : SSIZE_MAX = (ssizeMax : Int) := rfl
+  have hZ : SIZE_MAX = (sizeMax : Int) := rfl
+  have hI : INT_MAX = (intMax : Int) := rfl
+  have hIm : INT_MIN = -(intMax : Int) - 1 := rfl
+  obtain ⟨k1, k2⟩ := copy_facts
+  obtain ⟨r1, r2⟩ := toInt_range (s.length : Int)
+  have hle := toInt_le (s.length : Int) (by omega)
+  unfold shallowCopy
+  obtain ⟨id, o, b, hsc, hb, hl, hh, _⟩ := stringComponent_spec h "copy: get_string_component(src)"
+  rw [hsc]; ostep
+  rw [absLen_spec h]; ostep
+  unfold newStringLen
+  generalize hli : (toInt (s.length : Int)).1 = li at r1 r2 hle ⊢
+  generalize (toInt (s.length : Int)).2 = w
+  have hc := hm.cells id b hb
+  refine ⟨?_, ?_⟩
+  · intro hcase
+    by_cases hneg : li < 0
+    · have hbig : bigLen (toSizeT li) := by
+        unfold bigLen toSizeT; rw [if_pos hneg]; omega
+      have := (newString_spec m (.block id o) (toSizeT li) ok [] hm (fun hnb => absurd hbig hnb)).1 hbig
+      rw [this]; ostep
+      exact ⟨m, rfl, rfl, hm⟩
+    · have hok : ok = false := by rcases hcase with hc' | hc'; exact absurd hc' hneg; exact hc'
+      have hnbig : ¬ bigLen (toSizeT li) := by
+        unfold bigLen toSizeT; rw [if_neg hneg]; omega
+      obtain ⟨m', h1, h2, h3⟩ := (newString_spec m (.block id o) (toSizeT li) ok [] hm
+        (fun _ hc' => by rw [hok] at hc'; exact absurd hc' (by simp))).2.1 hnbig hok
+      rw [h1]; ostep
+      exact ⟨m', rfl, h2, h3⟩
+  · intro hpos hok
+    have hts : toSizeT li = li.toNat := by unfold toSizeT; rw [if_neg (by omega)]
+    have hnbig : ¬ bigLen (toSizeT li) := by
+      unfold bigLen; rw [hts]; omega
+    have hk : li.toNat ≤ s.length := by omega
+    have hsrc : SrcOK m.heap (.block id o) (toSizeT li) (s.take li.toNat) := by
+      rw [hts]
+      exact ⟨b, hb, hl, by have := hh.1; omega, hh.slice_bytes hc _ hk, by simp; omega⟩
+    obtain ⟨m', c, b', h1, h2, h3, _, h5, h6, h7⟩ := (newString_spec m (.block id o) (toSizeT li) ok (s.take li.toNat) hm
+      (fun _ _ => hsrc)).2.2 hnbig hok
+    rw [h1]; ostep
+    exact ⟨m', c, b', rfl, h2, h3, h5, h6, h7⟩
+
+/-! ### worlds -/
+
+/-- world invariant: `v` is the value the node holds (`none`: there is no node); the live blocks are
+exactly the node's -/
+def WInv (w : World) (v : Option Bytes) : Prop :=
+  MemInv w.mem ∧
+  match w.node, v with
+  | none, none => ∀ (id : Nat) (b : Block), w.mem.heap[id]? = some b → b.live = false
+  | some n, some s => Rep w.mem.heap n s ∧
+      ∀ (id : Nat) (b : Block), w.mem.heap[id]? = some b → (b.live = true ↔ owns n id)
+  | _, _ => False
+
+theorem Frame.ofNew {heap heap' : List Block} {n : Node} {b : Block} {s : Bytes}
+    (hh : heap' = heap ++ [b]) (hblk : n.blk = heap.length) (hpd : n.pdata = none) (hr : Rep heap' n s) :
+    Frame heap (fun _ => False) heap' (owns n) := by
+  have hown : ∀ id, owns n id → id = heap.length := by
+    intro id ho; rcases ho with ho | ⟨_, hp⟩
+    · omega
+    · rw [hpd] at hp; simp at hp
+  refine ⟨by rw [hh]; simp, ?_, ?_, ?_⟩
+  · intro id hid _; rw [hh, List.getElem?_append_left hid]
+  · intro id b' hb' hor
+    have hlt := lt_of_getElem?_some hb'
+    rw [hh] at hlt; simp at hlt
+    have hid : id = n.blk := by rcases hor with h | h; omega; exact h.elim
+    subst hid
+    exact ⟨fun _ => Or.inl rfl, fun _ => hr.owned_live (Or.inl rfl) hb'⟩
+  · intro id ho; left; have := hown id ho; omega
+
+theorem Rep.of_frame_false {heap heap' : List Block} {Q : Nat → Prop} {n : Node} {s : Bytes}
+    (f : Frame heap (fun _ => False) heap' Q) (h : Rep heap n s) : Rep heap' n s :=
+  h.frame (fun id ho => f.untouched id (h.owned_lt ho) (fun hc => hc))
+
+theorem Frame.refl_false (heap : List Block) : Frame heap (fun _ => False) heap (fun _ => False) :=
+  ⟨Nat.le_refl _, fun _ _ _ => rfl, fun id b' hb' hor => by
+    rcases hor with h | h
+    · have := lt_of_getElem?_some hb'; omega
+    · exact h.elim, fun _ h => h.elim⟩
+
+/-- the request fits `_json_object_set_string_len`'s length guard -/
+def fitsSet (k : Nat) : Prop := (k : Int) < INT_MAX - strSetGuardSlack
+
+instance (k : Nat) : Decidable (fitsSet k) := by unfold fitsSet; infer_instance
+
+/-- outcome of a constructor asked to hold the `len` bytes `val` -/
+def NewDesc (val : Bytes) (len : Nat) (ok : Bool) (r : Res) (v' : Option Bytes) : Prop :=
+  (bigLen len ∨ ok = false → r = .made false none ∧ v' = none) ∧
+  (¬ bigLen len → ok = true → r = .made true (some (viewOf val)) ∧ v' = some val)
+
+/-- outcome of a setter asked to store the `len` bytes `new` over `s` -/
+def SetDesc (s new : Bytes) (len : Nat) (ok : Bool) (r : Res) (v' : Option Bytes) : Prop :=
+  (r = .did 1 (viewOf new) ∧ v' = some new ∧ fitsSet len ∧ (ok = true ∨ len ≤ s.length)) ∨
+  (r = .did 0 (viewOf s) ∧ v' = some s ∧ (¬ fitsSet len ∨ (ok = false ∧ s.length < len)))
+
+/-- the second operand of the `eq` op: `new(a)`, then `set(b)` when given (refused when too long) -/
+def eqOther (a : Bytes) (b : Option Bytes) : Bytes :=
+  match b with
+  | none => a
+  | some b' => if fitsSet b'.length then b' else a
+
+/-- what `step` does, in terms of the value held before (`v`) and after (`v'`) -/
+def Desc (v : Option Bytes) (op : Op) (r : Res) (v' : Option Bytes) : Prop :=
+  match v, op with
+  | some _, .new _ _ => r = .busy ∧ v' = v
+  | some _, .newn _ => r = .busy ∧ v' = v
+  | some _, .newz _ _ => r = .busy ∧ v' = v
+  | none, .new obj ok => NewDesc obj obj.length ok r v'
+  | none, .newn k => NewDesc (claimSource.take (toSizeT k)) (toSizeT k) true r v'
+  | none, .newz obj ok => NewDesc (ByteStr.cPrefix obj) (ByteStr.cPrefix obj).length ok r v'
+  | none, _ => r = .noNode ∧ v' = none
+  | some s, .set obj ok => SetDesc s obj obj.length ok r v'
+  | some s, .setn k => SetDesc s (claimSource.take (toSizeT k)) (toSizeT k) true r v'
+  | some s, .setz obj ok => SetDesc s (ByteStr.cPrefix obj) (ByteStr.cPrefix obj).length ok r v'
+  | some s, .get => r = .saw (viewOf s) ∧ v' = v
+  | some s, .eq a b => r = .cmp (ByteStr.equal s (eqOther a b)) (ByteStr.equal (eqOther a b) s) ∧ v' = v
+  | some s, .copy ok =>
+      ((toInt s.length).1 < 0 ∨ ok = false → r = .copied none false false) ∧
+      (¬ ((toInt s.length).1 < 0 ∨ ok = false) → r = .copied (some (viewOf (s.take (toInt s.length).1.toNat)))
+              (ByteStr.equal s (s.take (toInt s.length).1.toNat)) (ByteStr.equal (s.take (toInt s.length).1.toNat) s)) ∧ v' = v
+  | some s, .ser => r = .payload s ∧ v' = v
+  | some _, .del => r = .deleted ∧ v' = none
+
+/-- requests a C caller may make: `int` arguments are ints, claimed sizes stay inside the 8-byte
+source object unless the call refuses them before reading -/
+def Op.WF : Op → Prop
+  | .new obj _ => (obj.length : Int) ≤ INT_MAX
+  | .newn k => INT_MIN ≤ k ∧ k ≤ claimSource.length
+  | .set obj _ => (obj.length : Int) ≤ INT_MAX
+  | .setn k => INT_MIN ≤ k ∧ k ≤ INT_MAX ∧ (k ≤ claimSource.length ∨ k ≥ INT_MAX - strSetGuardSlack)
+  | .eq a b => (a.length : Int) ≤ INT_MAX ∧ ∀ b', b = some b' → (b'.length : Int) ≤ INT_MAX
+  | _ => True
+
+theorem toSizeT_nat (k : Nat) : toSizeT (k : Int) = k := by
+  unfold toSizeT; rw [if_neg (by omega)]; omega
+
+theorem WInv.of_heap_eq {m m' : Mem} {node : Option Node} {v : Option Bytes}
+    (h : WInv { mem := m, node := node } v) (hh : m'.heap = m.heap) (hm' : MemInv m') :
+    WInv { mem := m', node := node } v := by
+  obtain ⟨_, h2⟩ := h
+  refine ⟨hm', ?_⟩
+  dsimp only at h2 ⊢
+  rw [hh]; exact h2
+
+/-- constructor on a world without node -/
+theorem ctor_gen (m : Mem) (src : Src) (len : Nat) (ok : Bool) (val : Bytes) (hm : MemInv m)
+    (hdead : ∀ (id : Nat) (b : Block), m.heap[id]? = some b → b.live = false)
+    (hsrc : ¬ bigLen len → ok = true → SrcOK m.heap src len val) :
+    ∃ w' r v', (newString m src len ok >>= afterNew) = .ok (w', r) ∧ WInv w' v' ∧ NewDesc val len ok r v' := by
+  obtain ⟨c1, c2, c3⟩ := newString_spec m src len ok val hm hsrc
+  by_cases hbig : bigLen len
+  · rw [c1 hbig]; ostep
+    refine ⟨_, _, none, rfl, ⟨hm, hdead⟩, ?_, ?_⟩
+    · intro _; exact ⟨rfl, rfl⟩
+    · intro h; exact absurd hbig h
+  · cases ok
+    · obtain ⟨m', h1, h2, h3⟩ := c2 hbig rfl
+      rw [h1]; ostep
+      refine ⟨_, _, none, rfl, ⟨h3, ?_⟩, ?_, ?_⟩
+      · dsimp only; rw [h2]; exact hdead
+      · intro _; exact ⟨rfl, rfl⟩
+      · intro _ h; simp at h
+    · obtain ⟨m', n, b, h1, h2, h3, h4, h5, h6, h7⟩ := c3 hbig rfl
+      rw [h1]; ostep
+      unfold afterNew; dsimp only
+      obtain ⟨m'', ho, hoh, hom⟩ := observe_spec h2 h7
+      rw [ho]; ostep
+      have fr : Frame m.heap (fun _ => False) m'.heap (owns n) := Frame.ofNew h6 h3 h5 h7
+      have hlive := fr.world (R := fun _ => False) (by
+        intro id b' hb'; rw [hdead id b' hb']; simp) (fun _ h => h.elim)
+      refine ⟨_, _, some val, rfl, ⟨hom, ?_, ?_⟩, ?_, ?_⟩
+      · dsimp only; rw [hoh]; exact h7
+      · dsimp only; rw [hoh]
+        intro id b' hb'; rw [hlive id b' hb']; simp
+      · intro h; rcases h with h | h
+        · exact absurd h hbig
+        · simp at h
+      · intro _ _; exact ⟨rfl, rfl⟩
+
+/-- setter on a world with a node -/
+theorem setter_gen (m : Mem) (n : Node) (s obj : Bytes) (len : Nat) (ok : Bool)
+    (hw : WInv { mem := m, node := some n } (some s)) (hsrc : fitsSet len → len ≤ obj.length) :
+    ∃ w' r v', (setString m n (.caller obj) len ok >>= afterSet) = .ok (w', r) ∧ WInv w' v' ∧
+      SetDesc s (obj.take len) len ok r v' := by
+  obtain ⟨hm, hr, hlive⟩ := hw
+  dsimp only at hr hlive
+  obtain ⟨m', n', ret, h1, hm', fr, hcase⟩ := setString_spec m n s obj len ok hm hr hsrc
+  rw [h1]; ostep
+  unfold afterSet; dsimp only
+  have hlive' := fr.world (R := fun _ => False) (by
+    intro id b hb; rw [hlive id b hb]; simp) (fun _ h => h.elim)
+  rcases hcase with ⟨hret, hrep, hfit, hor⟩ | ⟨hret, hn, hh, hor⟩
+  · obtain ⟨m'', ho, hoh, hom⟩ := observe_spec hm' hrep
+    rw [ho]; ostep
+    refine ⟨_, _, some (obj.take len), rfl, ⟨hom, ?_, ?_⟩, Or.inl ⟨by rw [hret], rfl, hfit, hor⟩⟩
+    · dsimp only; rw [hoh]; exact hrep
+    · dsimp only; rw [hoh]; intro id b hb; rw [hlive' id b hb]; simp
+  · subst hn
+    have hrep : Rep m'.heap n' s := by rw [hh]; exact hr
+    obtain ⟨m'', ho, hoh, hom⟩ := observe_spec hm' hrep
+    rw [ho]; ostep
+    refine ⟨_, _, some s, rfl, ⟨hom, ?_, ?_⟩, Or.inr ⟨by rw [hret], rfl, ?_⟩⟩
+    · dsimp only; rw [hoh]; exact hrep
+    · dsimp only; rw [hoh]; intro id b hb; rw [hlive' id b hb]; simp
+    · rcases hor with h | h
+      · left; unfold fitsSet; omega
+      · right; exact h
+
+
+theorem claim_len : claimSource.length = 8 := rfl
+
+/-- the `eq` op: a temporary second node is built, optionally mutated, compared both ways, released -/
+theorem eq_gen (m : Mem) (n : Node) (s a : Bytes) (b : Option Bytes)
+    (hw : WInv { mem := m, node := some n } (some s)) (ha : (a.length : Int) ≤ INT_MAX)
+    (hb : ∀ b', b = some b' → (b'.length : Int) ≤ INT_MAX) :
+    ∃ w' r, step { mem := m, node := some n } (.eq a b) = .ok (w', r) ∧ WInv w' (some s) ∧
+      r = .cmp (ByteStr.equal s (eqOther a b)) (ByteStr.equal (eqOther a b) s) := by
+  obtain ⟨f1, f2, f3, f4, f5, f6, f7⟩ := hdr_facts
+  obtain ⟨k1, k2⟩ := copy_facts
+  have hI : INT_MAX = (intMax : Int) := rfl
+  obtain ⟨hm, hr, hlive⟩ := hw
+  dsimp only at hr hlive
+  unfold step; dsimp only
+  unfold newStringLen
+  rw [toSizeT_nat]
+  have hnbig : ¬ bigLen a.length := by unfold bigLen; omega
+  obtain ⟨m1, f, bf, h1, hm1, hfblk, _, hfpd, hm1h, hrf⟩ :=
+    (newString_spec m (.caller a) a.length true a hm (fun _ _ => ⟨Nat.le_refl _, by simp⟩)).2.2 hnbig rfl
+  rw [h1]; ostep
+  have F1 : Frame m.heap (fun _ => False) m1.heap (owns f) := Frame.ofNew hm1h hfblk hfpd hrf
+  -- comparison both ways, then release of the second node
+  have tail : ∀ (m2 : Mem) (f' : Node) (val : Bytes), MemInv m2 → Frame m.heap (fun _ => False) m2.heap (owns f') →
+      Rep m2.heap f' val →
+      ∃ w' r, (do
+          let (m, ab) ← equalStr m2 n f'
+          let (m, ba) ← equalStr m f' n
+          let m ← stringDelete m f'
+          pure (({ mem := m, node := some n } : World), Res.cmp ab ba)) = .ok (w', r) ∧ WInv w' (some s) ∧
+        r = .cmp (ByteStr.equal s val) (ByteStr.equal val s) := by
+    intro m2 f' val hm2 F12 hrf'
+    have hrn2 : Rep m2.heap n s := Rep.of_frame_false F12 hr
+    obtain ⟨m3, h3, hm3h, hm3⟩ := equalStr_spec m2 n f' s val hm2 hrn2 hrf'
+    rw [h3]; ostep
+    obtain ⟨m4, h4, hm4h, hm4⟩ := equalStr_spec m3 f' n val s hm3 (by rw [hm3h]; exact hrf') (by rw [hm3h]; exact hrn2)
+    rw [h4]; ostep
+    obtain ⟨m5, h5, hm5, F3⟩ := stringDelete_spec m4 f' val hm4 (by rw [hm4h, hm3h]; exact hrf')
+    rw [h5]; ostep
+    have F123 : Frame m.heap (fun _ => False) m5.heap (fun _ => False) := by
+      have := F12.trans (by rw [hm4h, hm3h] at F3; exact F3)
+      exact this
+    refine ⟨_, _, rfl, ⟨hm5, Rep.of_frame_false F123 hr, ?_⟩, rfl⟩
+    dsimp only
+    have := F123.world (R := owns n) (by intro id b' hb'; rw [hlive id b' hb']; simp)
+      (fun id ho => ⟨hr.owned_lt ho, fun hc => hc⟩)
+    intro id b' hb'; rw [this id b' hb']; simp
+  cases b with
+  | none =>
+    dsimp only
+    rw [Outcome.pure_eq]; ostep
+    exact tail m1 f a hm1 F1 hrf
+  | some b' =>
+    dsimp only
+    unfold setStringLen
+    rw [toSizeT_nat]
+    obtain ⟨m2, f', ret, h2, hm2, fr2, hcase⟩ := setString_spec m1 f a b' b'.length true hm1 hrf (fun _ => Nat.le_refl _)
+    rw [h2]; ostep
+    rw [Outcome.pure_eq]; ostep
+    have hrep : Rep m2.heap f' (eqOther a (some b')) := by
+      unfold eqOther; dsimp only
+      rcases hcase with ⟨_, hrep, hfit, _⟩ | ⟨_, hn, hh, hor⟩
+      · rw [if_pos (by unfold fitsSet; exact hfit)]; simpa using hrep
+      · rcases hor with h | h
+        · rw [if_neg (by unfold fitsSet; omega)]; subst hn; rw [hh]; exact hrf
+        · simp at h
+    exact tail m2 f' _ hm2 (F1.trans fr2) hrep
+
+/-- the `copy` op -/
+theorem copy_gen (m : Mem) (n : Node) (s : Bytes) (ok : Bool)
+    (hw : WInv { mem := m, node := some n } (some s)) :
+    ∃ w' r, step { mem := m, node := some n } (.copy ok) = .ok (w', r) ∧ WInv w' (some s) ∧
+      ((toInt s.length).1 < 0 ∨ ok = false → r = .copied none false false) ∧
+      (¬ ((toInt s.length).1 < 0 ∨ ok = false) → r = .copied (some (viewOf (s.take (toInt s.length).1.toNat)))
+              (ByteStr.equal s (s.take (toInt s.length).1.toNat)) (ByteStr.equal (s.take (toInt s.length).1.toNat) s)) := by
+  obtain ⟨hm, hr, hlive⟩ := hw
+  dsimp only at hr hlive
+  unfold step; dsimp only
+  obtain ⟨c1, c2⟩ := shallowCopy_spec m n s ok hm hr
+  by_cases hc : (toInt s.length).1 < 0 ∨ ok = false
+  · obtain ⟨m1, h1, hm1h, hm1⟩ := c1 hc
+    rw [h1]; ostep
+    exact ⟨_, _, rfl, WInv.of_heap_eq ⟨hm, hr, hlive⟩ hm1h hm1, fun _ => rfl, fun h => absurd hc h⟩
+  · have hpos : 0 ≤ (toInt s.length).1 := by omega
+    have hok : ok = true := by cases ok <;> simp_all
+    obtain ⟨m1, c, bc, h1, hm1, hcblk, hcpd, hm1h, hrc⟩ := c2 hpos hok
+    rw [h1]; ostep
+    have F1 : Frame m.heap (fun _ => False) m1.heap (owns c) := Frame.ofNew hm1h hcblk hcpd hrc
+    have hrn1 : Rep m1.heap n s := Rep.of_frame_false F1 hr
+    obtain ⟨m2, h2, hm2h, hm2⟩ := observe_spec hm1 hrc
+    rw [h2]; ostep
+    obtain ⟨m3, h3, hm3h, hm3⟩ := equalStr_spec m2 n c s _ hm2 (by rw [hm2h]; exact hrn1) (by rw [hm2h]; exact hrc)
+    rw [h3]; ostep
+    obtain ⟨m4, h4, hm4h, hm4⟩ := equalStr_spec m3 c n _ s hm3 (by rw [hm3h, hm2h]; exact hrc) (by rw [hm3h, hm2h]; exact hrn1)
+    rw [h4]; ostep
+    obtain ⟨m5, h5, hm5, F3⟩ := stringDelete_spec m4 c _ hm4 (by rw [hm4h, hm3h, hm2h]; exact hrc)
+    rw [h5]; ostep
+    have F13 : Frame m.heap (fun _ => False) m5.heap (fun _ => False) := by
+      have := F1.trans (by rw [hm4h, hm3h, hm2h] at F3; exact F3)
+      exact this
+    refine ⟨_, _, rfl, ⟨hm5, Rep.of_frame_false F13 hr, ?_⟩, fun h => absurd h hc, fun _ => rfl⟩
+    dsimp only
+    have := F13.world (R := owns n) (by intro id b' hb'; rw [hlive id b' hb']; simp)
+      (fun id ho => ⟨hr.owned_lt ho, fun hc => hc⟩)
+    intro id b' hb'; rw [this id b' hb']; simp
+
+
+theorem cstrlen_z (obj : Bytes) : cstrlen (obj ++ [0]) = some (ByteStr.cPrefix obj).length := by
+  have := cstrlen_terminated obj []
+  simpa using this
+
+theorem take_z (obj : Bytes) : (obj ++ [0]).take (ByteStr.cPrefix obj).length = ByteStr.cPrefix obj := by
+  have := cPrefix_take obj []
+  simpa using this
+
+/-- one step of any well-formed request from any world satisfying the invariant: no fault, invariant
+kept, result described by `Desc` -/
+theorem step_gen (w : World) (v : Option Bytes) (op : Op) (hw : WInv w v) (hwf : op.WF) :
+    ∃ w' r v', step w op = .ok (w', r) ∧ WInv w' v' ∧ Desc v op r v' := by
+  have hI : INT_MAX = (intMax : Int) := rfl
+  have hIm : INT_MIN = -(intMax : Int) - 1 := rfl
+  have hZ : SIZE_MAX = (sizeMax : Int) := rfl
+  obtain ⟨f1, f2, f3, f4, f5, f6, f7⟩ := hdr_facts
+  obtain ⟨k1, k2⟩ := copy_facts
+  obtain ⟨m, node⟩ := w
+  cases node with
+  | none =>
+    cases v with
+    | some s => exact absurd hw.2 (by simp)
+    | none =>
+      have hm : MemInv m := hw.1
+      have hdead : ∀ (id : Nat) (b : Block), m.heap[id]? = some b → b.live = false := hw.2
+      cases op with
+      | new obj ok =>
+        have := ctor_gen m (.caller obj) obj.length ok obj hm hdead (fun _ _ => ⟨Nat.le_refl _, by simp⟩)
+        obtain ⟨w', r, v', h1, h2, h3⟩ := this
+        refine ⟨w', r, v', ?_, h2, h3⟩
+        unfold step newStringLen; dsimp only
+        rw [toSizeT_nat]; exact h1
+      | newn k =>
+        obtain ⟨hk1, hk2⟩ := hwf
+        rw [claim_len] at hk2
+        have hsrc : ¬ bigLen (toSizeT k) → true = true → SrcOK m.heap (.caller claimSource) (toSizeT k) (claimSource.take (toSizeT k)) := by
+          intro hnb _
+          refine ⟨?_, rfl⟩
+          rw [claim_len]
+          unfold bigLen toSizeT at hnb
+          unfold toSizeT
+          by_cases hneg : k < 0
+          · rw [if_pos hneg] at hnb; omega
+          · rw [if_neg hneg]; omega
+        obtain ⟨w', r, v', h1, h2, h3⟩ := ctor_gen m (.caller claimSource) (toSizeT k) true _ hm hdead hsrc
+        refine ⟨w', r, v', ?_, h2, h3⟩
+        unfold step newStringLen; dsimp only
+        exact h1
+      | newz obj ok =>
+        have := ctor_gen m (.caller (obj ++ [0])) (ByteStr.cPrefix obj).length ok (ByteStr.cPrefix obj) hm hdead
+          (fun _ _ => ⟨by have := cPrefix_length_le obj; simp; omega, (take_z obj).symm⟩)
+        obtain ⟨w', r, v', h1, h2, h3⟩ := this
+        refine ⟨w', r, v', ?_, h2, h3⟩
+        unfold step newStringZ; dsimp only
+        rw [cstrlen_z]; exact h1
+      | set _ _ => exact ⟨_, _, none, rfl, hw, rfl, rfl⟩
+      | setn _ => exact ⟨_, _, none, rfl, hw, rfl, rfl⟩
+      | setz _ _ => exact ⟨_, _, none, rfl, hw, rfl, rfl⟩
+      | get => exact ⟨_, _, none, rfl, hw, rfl, rfl⟩
+      | eq _ _ => exact ⟨_, _, none, rfl, hw, rfl, rfl⟩
+      | copy _ => exact ⟨_, _, none, rfl, hw, rfl, rfl⟩
+      | ser => exact ⟨_, _, none, rfl, hw, rfl, rfl⟩
+      | del => exact ⟨_, _, none, rfl, hw, rfl, rfl⟩
+  | some n =>
+    cases v with
+    | none => exact absurd hw.2 (by simp)
+    | some s =>
+      have hm : MemInv m := hw.1
+      have hr : Rep m.heap n s := hw.2.1
+      cases op with
+      | new _ _ => exact ⟨_, _, some s, rfl, hw, rfl, rfl⟩
+      | newn _ => exact ⟨_, _, some s, rfl, hw, rfl, rfl⟩
+      | newz _ _ => exact ⟨_, _, some s, rfl, hw, rfl, rfl⟩
+      | set obj ok =>
+        obtain ⟨w', r, v', h1, h2, h3⟩ := setter_gen m n s obj obj.length ok hw (fun _ => Nat.le_refl _)
+        refine ⟨w', r, v', ?_, h2, by rw [List.take_length] at h3; exact h3⟩
+        unfold step setStringLen; dsimp only
+        rw [toSizeT_nat]; exact h1
+      | setn k =>
+        obtain ⟨hk1, hk2, hk3⟩ := hwf
+        rw [claim_len] at hk3
+        have hsrc : fitsSet (toSizeT k) → toSizeT k ≤ claimSource.length := by
+          intro hfit
+          rw [claim_len]
+          unfold fitsSet toSizeT at hfit
+          unfold toSizeT
+          by_cases hneg : k < 0
+          · rw [if_pos hneg] at hfit; omega
+          · rw [if_neg hneg] at hfit ⊢; omega
+        obtain ⟨w', r, v', h1, h2, h3⟩ := setter_gen m n s claimSource (toSizeT k) true hw hsrc
+        refine ⟨w', r, v', ?_, h2, h3⟩
+        unfold step setStringLen; dsimp only
+        exact h1
+      | setz obj ok =>
+        obtain ⟨w', r, v', h1, h2, h3⟩ := setter_gen m n s (obj ++ [0]) (ByteStr.cPrefix obj).length ok hw
+          (fun _ => by have := cPrefix_length_le obj; simp; omega)
+        refine ⟨w', r, v', ?_, h2, by rw [take_z] at h3; exact h3⟩
+        unfold step setStringZ; dsimp only
+        rw [cstrlen_z]; exact h1
+      | get =>
+        obtain ⟨m', h1, h2, h3⟩ := observe_spec hm hr
+        refine ⟨_, _, some s, ?_, WInv.of_heap_eq hw h2 h3, rfl, rfl⟩
+        unfold step; dsimp only
+        rw [h1]; ostep; rfl
+      | eq a b =>
+        obtain ⟨w', r, h1, h2, h3⟩ := eq_gen m n s a b hw hwf.1 hwf.2
+        exact ⟨w', r, some s, h1, h2, h3, rfl⟩
+      | copy ok =>
+        obtain ⟨w', r, h1, h2, h3, h4⟩ := copy_gen m n s ok hw
+        exact ⟨w', r, some s, h1, h2, h3, h4, rfl⟩
+      | ser =>
+        obtain ⟨m', h1, h2, h3⟩ := serializePayload_spec m n s hm hr
+        refine ⟨_, _, some s, ?_, WInv.of_heap_eq hw h2 h3, rfl, rfl⟩
+        unfold step; dsimp only
+        rw [h1]; ostep; rfl
+      | del =>
+        obtain ⟨m', h1, h2, fr⟩ := stringDelete_spec m n s hm hr
+        have hlive := fr.world (R := fun _ => False) (by
+          intro id b hb; rw [hw.2.2 id b hb]; simp) (fun _ h => h.elim)
+        refine ⟨{ mem := m', node := none }, .deleted, none, ?_, ⟨h2, ?_⟩, rfl, rfl⟩
+        · unfold step; dsimp only
+          rw [h1]; ostep; rfl
+        · intro id b hb
+          have := hlive id b hb
+          cases hbl : b.live
+          · rfl
+          · rw [hbl] at this; simp at this
+
+
+/-! ### histories -/
+def RunDesc : Option Bytes → List Op → List Res → Option Bytes → Prop
+  | v, [], [], v' => v' = v
+  | v, op :: ops, r :: rs, v' => ∃ v1, Desc v op r v1 ∧ RunDesc v1 ops rs v'
+  | _, _, _, _ => False
+
+theorem run_gen (ops : List Op) : ∀ (w : World) (v : Option Bytes), WInv w v → (∀ op ∈ ops, op.WF) →
+    ∃ w' rs v', run w ops = .ok (w', rs) ∧ WInv w' v' ∧ RunDesc v ops rs v' := by
+  induction ops with
+  | nil => intro w v hw _; exact ⟨w, [], v, rfl, hw, rfl⟩
+  | cons op ops ih =>
+    intro w v hw hwf
+    obtain ⟨w1, r, v1, h1, hw1, hd⟩ := step_gen w v op hw (hwf op (by simp))
+    obtain ⟨w2, rs, v2, h2, hw2, hds⟩ := ih w1 v1 hw1 (fun o ho => hwf o (by simp [ho]))
+    refine ⟨w2, r :: rs, v2, ?_, hw2, v1, hd, hds⟩
+    unfold run
+    rw [h1]; ostep
+    rw [h2]; ostep
+    rfl
+
+theorem WInv.empty : WInv {} none := ⟨MemInv.empty, fun id b h => by simp at h⟩
 
 end JsonC.StrStore
